@@ -1,9 +1,13 @@
 // C05 — Register allocation preserves the meaning of Compiler programs.
 //
-// Case: cfg = [ng, tysel, nv, nk, vmode, nargs, foldfrac, foldsel, pressure, nslots, inseed, initsel]
+// Case: cfg = [ng, tysel, nv, nk, vmode, nargs, foldfrac, foldsel, pressure, nslots, inseed, initsel, nw, wsel]
 //       ops = [kind, f1, f2, ...]  (every field is reduced modulo its range: any integer vector decodes to a valid program)
+// (nw/wsel and the op kinds after `retif` were appended later: older case files decode exactly as before.)
 // The harness owns a small IR: a tree of structured control flow (if / counted loop / two-entry cycle / annotated jump
-// table / early return) whose leaves are micro-ops (MOp) with exact x86 semantics. The same tree is
+// table / multi-entry dispatch = several annotated jumps over one target set / early return) whose leaves are micro-ops
+// (MOp) with exact x86 semantics. The same tree is
+// Wide values (nw > 0, AVX/AVX-512 mode): ymm or zmm virtual registers with lane-wise, cross-lane and xmm-view ops; callees of
+// three conventions (SysV, Win64 and vectorcall = ms_abi C functions) that really destroy everything their convention allows.
 //   (1) interpreted over unbounded virtual values  -> expected return value, memory image, call log
 //   (2) compiled by x86::Compiler for x86-64, executed through the hostexec trampoline on >=32 inputs
 //   (3) compiled again without the pressure dummies (metamorphic)
@@ -31,7 +35,7 @@ namespace {
 // ------------------------------------------------------------------------------------------------
 // Buffer layout (one scratch buffer argument; every offset fits a disp32)
 // ------------------------------------------------------------------------------------------------
-constexpr int kMaxG = 200, kMaxV = 40, kMaxK = 10, kMaxP = 200, kMaxArgs = 11, kMaxSlots = 4;
+constexpr int kMaxG = 200, kMaxV = 40, kMaxK = 10, kMaxP = 200, kMaxArgs = 11, kMaxSlots = 4, kMaxW = 24;
 constexpr int OFF_GIN = 0;       // 256 * 8
 constexpr int OFF_VIN = 2048;    // 48 * 16
 constexpr int OFF_KIN = 2816;    // 16 * 8
@@ -42,7 +46,9 @@ constexpr int OFF_GOUT = 4864;   // 256 * 8
 constexpr int OFF_VOUT = 6912;   // 48 * 16
 constexpr int OFF_KOUT = 7680;   // 16 * 8
 constexpr int OFF_RES2 = 7808;   // pressure accumulator (ignored by the metamorphic comparison)
-constexpr int BUF_SIZE = 7872;
+constexpr int OFF_WIN = 7872;    // 24 * 64  wide (ymm/zmm) inputs  (appended: the older regions keep their offsets)
+constexpr int OFF_WOUT = 9408;   // 24 * 64  wide outputs
+constexpr int BUF_SIZE = 10944;
 constexpr int BUF_GUARD = 64;
 
 inline uint64_t mix64(uint64_t x) {
@@ -56,7 +62,7 @@ inline int umod(int64_t v, int n) { if (n <= 0) return 0; v %= n; if (v < 0) v +
 // ------------------------------------------------------------------------------------------------
 // IR
 // ------------------------------------------------------------------------------------------------
-enum { T_NONE, T_REG, T_IMM, T_MEM, T_VEC, T_MSK };
+enum { T_NONE, T_REG, T_IMM, T_MEM, T_VEC, T_MSK, T_WID };
 enum { MS_BUF, MS_SLOT, MS_CONSTL, MS_CONSTG };
 struct MemRef { int space = MS_BUF; int off = 0; int idx = -1; int shift = 0; int slot = 0; };
 struct Opnd {
@@ -64,12 +70,13 @@ struct Opnd {
   static Opnd R(int r) { Opnd o; o.t = T_REG; o.r = r; return o; }
   static Opnd V(int r) { Opnd o; o.t = T_VEC; o.r = r; return o; }
   static Opnd K(int r) { Opnd o; o.t = T_MSK; o.r = r; return o; }
+  static Opnd W(int r) { Opnd o; o.t = T_WID; o.r = r; return o; }
   static Opnd I(int64_t v) { Opnd o; o.t = T_IMM; o.imm = v; return o; }
   static Opnd M(const MemRef& m) { Opnd o; o.t = T_MEM; o.m = m; return o; }
 };
 
 enum MK { M_ALU, M_UN, M_IMUL3, M_LEA, M_MOVX, M_SHIFT, M_MULDIV, M_CDQ, M_CMPXCHG, M_SETCC, M_CMOV, M_BT, M_CNT,
-          M_VGX, M_VMOV, M_VALU, M_VTERN, M_KOP, M_KCMP, M_CALL, M_COUNT_ };
+          M_VGX, M_VMOV, M_VALU, M_VTERN, M_KOP, M_KCMP, M_CALL, M_WMOV, M_WALU, M_WTERN, M_WX, M_COUNT_ };
 enum { A_ADD, A_SUB, A_AND, A_OR, A_XOR, A_MOV, A_CMP, A_TEST, A_IMUL, A_XCHG, A_XADD };
 enum { U_NOT, U_NEG, U_INC, U_DEC };
 enum { S_SHL, S_SHR, S_SAR, S_ROL, S_ROR };
@@ -80,6 +87,8 @@ enum { C_POPCNT, C_LZCNT, C_TZCNT };
 enum { G_MOVD_XG, G_MOVD_GX, G_MOVQ_XG, G_MOVQ_GX, G_PINSRD, G_PEXTRD };
 enum { V_PADDD, V_PSUBD, V_PXOR, V_PAND, V_POR, V_PANDN, V_PCMPEQD, V_PCMPGTD, V_PSHUFD, V_COUNT_ };
 enum { KO_KG, KO_GK, KO_AND, KO_OR, KO_XOR, KO_XNOR, KO_NOT, KO_KK, KO_KM, KO_MK };
+// wide (ymm/zmm) <-> xmm / cross-lane ops: the upper 128-bit lanes matter
+enum { WX_EXTRACT, WX_INSERT, WX_PERM2, WX_BCAST, WX_LOWREAD, WX_LOWWRITE, WX_PERMQ, WX_EXTRACT_MEM, WX_COUNT_ };
 
 struct MOp {
   int k = M_ALU; int sub = 0; int w = 32; int w2 = 0;
@@ -89,7 +98,7 @@ struct MOp {
   int alt = 0;                       // encoding alternative (e.g. vpxor vs vpxord, inc vs add 1)
 };
 
-enum NK { N_OP, N_IF, N_LOOP, N_IRR, N_SWITCH, N_RETIF };
+enum NK { N_OP, N_IF, N_LOOP, N_IRR, N_SWITCH, N_RETIF, N_DISPATCH };
 struct Node {
   int kind = N_OP;
   std::vector<MOp> ops;   // N_OP: the lowered micro-ops; N_IF/N_IRR/N_RETIF: the flag-producing micro-ops of the condition
@@ -100,11 +109,16 @@ struct Node {
   int ntab = 4;           // switch: table entries
   int pad = 0;            // switch: every case starts with a nop (exclusion of a known defect)
   int hl = 0;             // high-level kind (class counters)
+  // N_DISPATCH: parts[0] / parts[1] = the two entry arms (chosen by cc), parts[2..2+n-1] = the n cases. Every arm ends with its
+  // own annotated indirect jump into the case set (selectors sel / sel2); a case whose bit is set in `redisp` ends with another
+  // one (selector sel3) as long as the budget `n2` lasts. All these jumps list the same labels (in the orders perm[0..2]).
+  int sel2 = -1, sel3 = -1, n2 = 1, redisp = 0, sameann = 0, rot = 0; int perm[3] = {0, 0, 0};
   std::vector<std::vector<Node>> parts;
 };
 
 struct Prog {
   int ng = 1, nv = 0, nk = 0, vmode = 0, nargs = 0, foldfrac = 8, foldsel = 0, pressure = 0, nslots = 0, tysel = 0, initsel = 0;
+  int nw = 0, wbits = 256;           // wide vector values: ymm (256) or zmm (512, AVX-512 mode on an AVX-512 host)
   uint64_t inseed = 0;
   std::vector<uint8_t> gty;          // width in bits (32/64) of every GP value; temps are appended after ng
   int ntemps = 0;
@@ -112,67 +126,154 @@ struct Prog {
   std::vector<Node> body;
   // statistics
   int n_static_ops = 0, n_calls = 0, n_switch = 0, n_loops = 0, n_irr = 0, n_if = 0, n_retif = 0, n_fixed = 0, n_partial = 0, n_idiom = 0,
-      n_vec = 0, n_mask = 0, n_mem = 0, max_depth = 0, n_excluded = 0;
+      n_vec = 0, n_mask = 0, n_mem = 0, max_depth = 0, n_excluded = 0,
+      n_dispatch = 0, n_disp_jumps = 0, n_disp_sameann = 0, n_disp_unalloc_first = 0, n_disp_redisp = 0, n_disp_after_call = 0, n_disp_call_inside = 0, n_disp_write_in_arm = 0,
+      n_wide = 0, n_wide_xlane = 0, n_wide_lowview = 0, n_wide_mem = 0, n_calls_win = 0, n_calls_vcall = 0, n_calls_widearg = 0;
   int n_excl[16] = {};
   bool folded(int i) const { return ((i * 5 + foldsel) & 7) < foldfrac; }
 };
 
-// Callee signatures: 'q' u64, 'd' u32, 'x' 128-bit vector by value. First char = return type.
-const char* const kCallees[] = { "q", "qq", "qdq", "qqdq", "qdddd", "qqdqdqd", "qqdqdqdqd", "qqqqqqqqqqq", "qxqx", "xxd", "qdxdxq" };
+// Callee signatures: 'q' u64, 'd' u32, 'x' 128-bit vector by value, 'y' 256-bit vector by value. First char = return type.
+// Callees 0..10 (H_CALL) use the host (SysV) convention. Callees 11.. (H_CALL2, appended later) are C functions compiled with
+// __attribute__((ms_abi)) and invoked through CallConvId::kX64Windows / kVectorCall (integer arguments only: both conventions
+// pass them in rcx, rdx, r8, r9 + stack and preserve rbx, rbp, rsi, rdi, r12-r15 and the LOW 128 bits of xmm6-15), and SysV
+// callees that take / return 256-bit vectors.
+enum { CV_SYSV, CV_WIN64, CV_VECTORCALL };
+const char* const kCallees[] = { "q", "qq", "qdq", "qqdq", "qdddd", "qqdqdqd", "qqdqdqdqd", "qqqqqqqqqqq", "qxqx", "xxd", "qdxdxq",
+                                 "q", "qq", "qdq", "qqdqdqd", "qddddq", "qqd", "qqqqdq", "yyq", "qyqy" };
+const int kCalleeConv[] = { CV_SYSV, CV_SYSV, CV_SYSV, CV_SYSV, CV_SYSV, CV_SYSV, CV_SYSV, CV_SYSV, CV_SYSV, CV_SYSV, CV_SYSV,
+                            CV_WIN64, CV_WIN64, CV_WIN64, CV_WIN64, CV_WIN64, CV_VECTORCALL, CV_VECTORCALL, CV_SYSV, CV_SYSV };
+constexpr int kNumCallees1 = 11;     // H_CALL decodes modulo this (must never change: older case files)
 constexpr int kNumCallees = int(sizeof(kCallees) / sizeof(kCallees[0]));
+constexpr int kNumCallees2NoWide = 7;   // H_CALL2 callees that need no 256-bit value
+static_assert(sizeof(kCalleeConv) / sizeof(kCalleeConv[0]) == kNumCallees, "callee tables");
 
-struct CallRec { int id; uint64_t a[10][2]; uint64_t ret[2];
+struct CallRec { int id; uint64_t a[10][4]; uint64_t ret[4];
   bool operator==(const CallRec& o) const { return id == o.id && memcmp(a, o.a, sizeof a) == 0; } };
 
 // The pure model of every callee: return value from (id, args).
 inline void callee_model(CallRec& r) {
   uint64_t h = mix64(0xC05 + uint64_t(r.id));
   const char* sig = kCallees[r.id];
-  for (int i = 0; sig[1 + i]; i++) { h = mix64(h ^ r.a[i][0]); if (sig[1 + i] == 'x') h = mix64(h + r.a[i][1]); }
-  r.ret[0] = h; r.ret[1] = mix64(h);
+  for (int i = 0; sig[1 + i]; i++) {
+    h = mix64(h ^ r.a[i][0]); if (sig[1 + i] == 'x' || sig[1 + i] == 'y') h = mix64(h + r.a[i][1]);
+    if (sig[1 + i] == 'y') { h = mix64(h + r.a[i][2]); h = mix64(h ^ r.a[i][3]); }
+  }
+  r.ret[0] = h; r.ret[1] = mix64(h); r.ret[2] = mix64(r.ret[1]); r.ret[3] = mix64(r.ret[2]);
 }
 
 std::vector<CallRec> g_log_actual;
+int g_host_avx512 = 0;     // set in vh_init from CpuInfo
 
 #define C05_NOSAN __attribute__((no_sanitize("address", "undefined"), noinline))
 inline void C05_NOSAN log_call(CallRec& r) { callee_model(r); if (g_log_actual.size() < 4096) g_log_actual.push_back(r); }
 inline void put_x(CallRec& r, int i, __m128i v) { uint64_t t[2]; memcpy(t, &v, 16); r.a[i][0] = t[0]; r.a[i][1] = t[1]; }
+inline void put_y(CallRec& r, int i, __m256i v) { memcpy(r.a[i], &v, 32); }
 
+// Every callee really destroys every register its convention lets it destroy (the interpreter treats a callee as a pure function
+// of its arguments, so every live value of the caller must survive): all volatile GP registers, all vector registers completely
+// (zmm0-31 / k0-7 on an AVX-512 host) followed by vzeroupper. In the ms_abi functions xmm6-15 are in the clobber list, so the C
+// compiler saves and restores exactly their low 128 bits, as a real Win64 callee does: the upper parts of ymm/zmm6-15 are lost.
+#define C05_GARBAGE_VEC16 \
+    "vpcmpeqd %%ymm0,%%ymm0,%%ymm0\n vpcmpeqd %%ymm1,%%ymm1,%%ymm1\n vpcmpeqd %%ymm2,%%ymm2,%%ymm2\n vpcmpeqd %%ymm3,%%ymm3,%%ymm3\n" \
+    "vpcmpeqd %%ymm4,%%ymm4,%%ymm4\n vpcmpeqd %%ymm5,%%ymm5,%%ymm5\n vpcmpeqd %%ymm6,%%ymm6,%%ymm6\n vpcmpeqd %%ymm7,%%ymm7,%%ymm7\n" \
+    "vpcmpeqd %%ymm8,%%ymm8,%%ymm8\n vpcmpeqd %%ymm9,%%ymm9,%%ymm9\n vpcmpeqd %%ymm10,%%ymm10,%%ymm10\n vpcmpeqd %%ymm11,%%ymm11,%%ymm11\n" \
+    "vpcmpeqd %%ymm12,%%ymm12,%%ymm12\n vpcmpeqd %%ymm13,%%ymm13,%%ymm13\n vpcmpeqd %%ymm14,%%ymm14,%%ymm14\n vpcmpeqd %%ymm15,%%ymm15,%%ymm15\n"
+#define C05_CLOBBER_VEC16 "xmm0", "xmm1", "xmm2", "xmm3", "xmm4", "xmm5", "xmm6", "xmm7", "xmm8", "xmm9", "xmm10", "xmm11", "xmm12", "xmm13", "xmm14", "xmm15"
+static inline __attribute__((always_inline)) void c05_clobber_avx512() {
+  if (!g_host_avx512) return;
+  asm volatile(
+    "vpternlogd $0xFF,%%zmm0,%%zmm0,%%zmm0\n vpternlogd $0xFF,%%zmm1,%%zmm1,%%zmm1\n vpternlogd $0xFF,%%zmm2,%%zmm2,%%zmm2\n vpternlogd $0xFF,%%zmm3,%%zmm3,%%zmm3\n"
+    "vpternlogd $0xFF,%%zmm4,%%zmm4,%%zmm4\n vpternlogd $0xFF,%%zmm5,%%zmm5,%%zmm5\n vpternlogd $0xFF,%%zmm6,%%zmm6,%%zmm6\n vpternlogd $0xFF,%%zmm7,%%zmm7,%%zmm7\n"
+    "vpternlogd $0xFF,%%zmm8,%%zmm8,%%zmm8\n vpternlogd $0xFF,%%zmm9,%%zmm9,%%zmm9\n vpternlogd $0xFF,%%zmm10,%%zmm10,%%zmm10\n vpternlogd $0xFF,%%zmm11,%%zmm11,%%zmm11\n"
+    "vpternlogd $0xFF,%%zmm12,%%zmm12,%%zmm12\n vpternlogd $0xFF,%%zmm13,%%zmm13,%%zmm13\n vpternlogd $0xFF,%%zmm14,%%zmm14,%%zmm14\n vpternlogd $0xFF,%%zmm15,%%zmm15,%%zmm15\n"
+    "vpternlogd $0xFF,%%zmm16,%%zmm16,%%zmm16\n vpternlogd $0xFF,%%zmm17,%%zmm17,%%zmm17\n vpternlogd $0xFF,%%zmm18,%%zmm18,%%zmm18\n vpternlogd $0xFF,%%zmm19,%%zmm19,%%zmm19\n"
+    "vpternlogd $0xFF,%%zmm20,%%zmm20,%%zmm20\n vpternlogd $0xFF,%%zmm21,%%zmm21,%%zmm21\n vpternlogd $0xFF,%%zmm22,%%zmm22,%%zmm22\n vpternlogd $0xFF,%%zmm23,%%zmm23,%%zmm23\n"
+    "vpternlogd $0xFF,%%zmm24,%%zmm24,%%zmm24\n vpternlogd $0xFF,%%zmm25,%%zmm25,%%zmm25\n vpternlogd $0xFF,%%zmm26,%%zmm26,%%zmm26\n vpternlogd $0xFF,%%zmm27,%%zmm27,%%zmm27\n"
+    "vpternlogd $0xFF,%%zmm28,%%zmm28,%%zmm28\n vpternlogd $0xFF,%%zmm29,%%zmm29,%%zmm29\n vpternlogd $0xFF,%%zmm30,%%zmm30,%%zmm30\n vpternlogd $0xFF,%%zmm31,%%zmm31,%%zmm31\n"
+    "kxnorw %%k0,%%k0,%%k0\n kxnorw %%k1,%%k1,%%k1\n kxnorw %%k2,%%k2,%%k2\n kxnorw %%k3,%%k3,%%k3\n kxnorw %%k4,%%k4,%%k4\n kxnorw %%k5,%%k5,%%k5\n kxnorw %%k6,%%k6,%%k6\n kxnorw %%k7,%%k7,%%k7\n"
+    ::: C05_CLOBBER_VEC16, "xmm16", "xmm17", "xmm18", "xmm19", "xmm20", "xmm21", "xmm22", "xmm23", "xmm24", "xmm25", "xmm26", "xmm27", "xmm28", "xmm29", "xmm30", "xmm31",
+        "k0", "k1", "k2", "k3", "k4", "k5", "k6", "k7", "memory");
+}
+static inline __attribute__((always_inline)) void c05_clobber_sysv() {
+  uint64_t g = 0xBAD0C0DEBAD0C0DEull;
+  c05_clobber_avx512();
+  asm volatile("mov %0,%%rcx\n mov %0,%%rdx\n mov %0,%%rsi\n mov %0,%%rdi\n mov %0,%%r8\n mov %0,%%r9\n mov %0,%%r10\n mov %0,%%r11\n" C05_GARBAGE_VEC16 "vzeroupper\n"
+               :: "r"(g) : "rcx", "rdx", "rsi", "rdi", "r8", "r9", "r10", "r11", C05_CLOBBER_VEC16, "cc", "memory");
+}
+static inline __attribute__((always_inline)) void c05_clobber_win() {
+  uint64_t g = 0xBAD0C0DEBAD0C0DEull;
+  c05_clobber_avx512();
+  asm volatile("mov %0,%%rcx\n mov %0,%%rdx\n mov %0,%%r8\n mov %0,%%r9\n mov %0,%%r10\n mov %0,%%r11\n" C05_GARBAGE_VEC16 "vzeroupper\n"
+               :: "r"(g) : "rcx", "rdx", "r8", "r9", "r10", "r11", C05_CLOBBER_VEC16, "cc", "memory");
+}
+#define C05_MSABI __attribute__((ms_abi))
+
+#define C05_RET(clob) do { uint64_t v_ = r.ret[0]; clob(); return v_; } while (0)
 extern "C" {
-C05_NOSAN uint64_t c05_cal0() { CallRec r{}; r.id = 0; log_call(r); return r.ret[0]; }
-C05_NOSAN uint64_t c05_cal1(uint64_t a) { CallRec r{}; r.id = 1; r.a[0][0] = a; log_call(r); return r.ret[0]; }
-C05_NOSAN uint64_t c05_cal2(uint32_t a, uint64_t b) { CallRec r{}; r.id = 2; r.a[0][0] = a; r.a[1][0] = b; log_call(r); return r.ret[0]; }
-C05_NOSAN uint64_t c05_cal3(uint64_t a, uint32_t b, uint64_t c) { CallRec r{}; r.id = 3; r.a[0][0] = a; r.a[1][0] = b; r.a[2][0] = c; log_call(r); return r.ret[0]; }
-C05_NOSAN uint64_t c05_cal4(uint32_t a, uint32_t b, uint32_t c, uint32_t d) { CallRec r{}; r.id = 4; r.a[0][0] = a; r.a[1][0] = b; r.a[2][0] = c; r.a[3][0] = d; log_call(r); return r.ret[0]; }
+C05_NOSAN uint64_t c05_cal0() { CallRec r{}; r.id = 0; log_call(r); C05_RET(c05_clobber_sysv); }
+C05_NOSAN uint64_t c05_cal1(uint64_t a) { CallRec r{}; r.id = 1; r.a[0][0] = a; log_call(r); C05_RET(c05_clobber_sysv); }
+C05_NOSAN uint64_t c05_cal2(uint32_t a, uint64_t b) { CallRec r{}; r.id = 2; r.a[0][0] = a; r.a[1][0] = b; log_call(r); C05_RET(c05_clobber_sysv); }
+C05_NOSAN uint64_t c05_cal3(uint64_t a, uint32_t b, uint64_t c) { CallRec r{}; r.id = 3; r.a[0][0] = a; r.a[1][0] = b; r.a[2][0] = c; log_call(r); C05_RET(c05_clobber_sysv); }
+C05_NOSAN uint64_t c05_cal4(uint32_t a, uint32_t b, uint32_t c, uint32_t d) { CallRec r{}; r.id = 4; r.a[0][0] = a; r.a[1][0] = b; r.a[2][0] = c; r.a[3][0] = d; log_call(r); C05_RET(c05_clobber_sysv); }
 C05_NOSAN uint64_t c05_cal5(uint64_t a, uint32_t b, uint64_t c, uint32_t d, uint64_t e, uint32_t f) {
-  CallRec r{}; r.id = 5; r.a[0][0] = a; r.a[1][0] = b; r.a[2][0] = c; r.a[3][0] = d; r.a[4][0] = e; r.a[5][0] = f; log_call(r); return r.ret[0]; }
+  CallRec r{}; r.id = 5; r.a[0][0] = a; r.a[1][0] = b; r.a[2][0] = c; r.a[3][0] = d; r.a[4][0] = e; r.a[5][0] = f; log_call(r); C05_RET(c05_clobber_sysv); }
 C05_NOSAN uint64_t c05_cal6(uint64_t a, uint32_t b, uint64_t c, uint32_t d, uint64_t e, uint32_t f, uint64_t g, uint32_t h) {
-  CallRec r{}; r.id = 6; r.a[0][0] = a; r.a[1][0] = b; r.a[2][0] = c; r.a[3][0] = d; r.a[4][0] = e; r.a[5][0] = f; r.a[6][0] = g; r.a[7][0] = h; log_call(r); return r.ret[0]; }
+  CallRec r{}; r.id = 6; r.a[0][0] = a; r.a[1][0] = b; r.a[2][0] = c; r.a[3][0] = d; r.a[4][0] = e; r.a[5][0] = f; r.a[6][0] = g; r.a[7][0] = h; log_call(r); C05_RET(c05_clobber_sysv); }
 C05_NOSAN uint64_t c05_cal7(uint64_t a, uint64_t b, uint64_t c, uint64_t d, uint64_t e, uint64_t f, uint64_t g, uint64_t h, uint64_t i, uint64_t j) {
   CallRec r{}; r.id = 7; r.a[0][0] = a; r.a[1][0] = b; r.a[2][0] = c; r.a[3][0] = d; r.a[4][0] = e; r.a[5][0] = f; r.a[6][0] = g; r.a[7][0] = h; r.a[8][0] = i; r.a[9][0] = j;
-  log_call(r); return r.ret[0]; }
-C05_NOSAN uint64_t c05_cal8(__m128i a, uint64_t b, __m128i c) { CallRec r{}; r.id = 8; put_x(r, 0, a); r.a[1][0] = b; put_x(r, 2, c); log_call(r); return r.ret[0]; }
-C05_NOSAN __m128i c05_cal9(__m128i a, uint32_t b) { CallRec r{}; r.id = 9; put_x(r, 0, a); r.a[1][0] = b; log_call(r); __m128i v; memcpy(&v, r.ret, 16); return v; }
+  log_call(r); C05_RET(c05_clobber_sysv); }
+C05_NOSAN uint64_t c05_cal8(__m128i a, uint64_t b, __m128i c) { CallRec r{}; r.id = 8; put_x(r, 0, a); r.a[1][0] = b; put_x(r, 2, c); log_call(r); C05_RET(c05_clobber_sysv); }
+C05_NOSAN __m128i c05_cal9(__m128i a, uint32_t b) { CallRec r{}; r.id = 9; put_x(r, 0, a); r.a[1][0] = b; log_call(r); uint64_t t[2] = {r.ret[0], r.ret[1]}; c05_clobber_sysv(); __m128i v; memcpy(&v, t, 16); return v; }
 C05_NOSAN uint64_t c05_cal10(uint32_t a, __m128i b, uint32_t c, __m128i d, uint64_t e) {
-  CallRec r{}; r.id = 10; r.a[0][0] = a; put_x(r, 1, b); r.a[2][0] = c; put_x(r, 3, d); r.a[4][0] = e; log_call(r); return r.ret[0]; }
+  CallRec r{}; r.id = 10; r.a[0][0] = a; put_x(r, 1, b); r.a[2][0] = c; put_x(r, 3, d); r.a[4][0] = e; log_call(r); C05_RET(c05_clobber_sysv); }
+// ---- ms_abi callees (Win64 / vectorcall with integer arguments) ----
+C05_MSABI C05_NOSAN uint64_t c05_cal11() { CallRec r{}; r.id = 11; log_call(r); C05_RET(c05_clobber_win); }
+C05_MSABI C05_NOSAN uint64_t c05_cal12(uint64_t a) { CallRec r{}; r.id = 12; r.a[0][0] = a; log_call(r); C05_RET(c05_clobber_win); }
+C05_MSABI C05_NOSAN uint64_t c05_cal13(uint32_t a, uint64_t b) { CallRec r{}; r.id = 13; r.a[0][0] = a; r.a[1][0] = b; log_call(r); C05_RET(c05_clobber_win); }
+C05_MSABI C05_NOSAN uint64_t c05_cal14(uint64_t a, uint32_t b, uint64_t c, uint32_t d, uint64_t e, uint32_t f) {
+  CallRec r{}; r.id = 14; r.a[0][0] = a; r.a[1][0] = b; r.a[2][0] = c; r.a[3][0] = d; r.a[4][0] = e; r.a[5][0] = f; log_call(r); C05_RET(c05_clobber_win); }
+C05_MSABI C05_NOSAN uint64_t c05_cal15(uint32_t a, uint32_t b, uint32_t c, uint32_t d, uint64_t e) {
+  CallRec r{}; r.id = 15; r.a[0][0] = a; r.a[1][0] = b; r.a[2][0] = c; r.a[3][0] = d; r.a[4][0] = e; log_call(r); C05_RET(c05_clobber_win); }
+C05_MSABI C05_NOSAN uint64_t c05_cal16(uint64_t a, uint32_t b) { CallRec r{}; r.id = 16; r.a[0][0] = a; r.a[1][0] = b; log_call(r); C05_RET(c05_clobber_win); }
+C05_MSABI C05_NOSAN uint64_t c05_cal17(uint64_t a, uint64_t b, uint64_t c, uint32_t d, uint64_t e) {
+  CallRec r{}; r.id = 17; r.a[0][0] = a; r.a[1][0] = b; r.a[2][0] = c; r.a[3][0] = d; r.a[4][0] = e; log_call(r); C05_RET(c05_clobber_win); }
+// ---- SysV callees with 256-bit vectors by value ----
+C05_NOSAN __m256i c05_cal18(__m256i a, uint64_t b) { CallRec r{}; r.id = 18; put_y(r, 0, a); r.a[1][0] = b; log_call(r); uint64_t t[4] = {r.ret[0], r.ret[1], r.ret[2], r.ret[3]}; c05_clobber_sysv(); __m256i v; memcpy(&v, t, 32); return v; }
+C05_NOSAN uint64_t c05_cal19(__m256i a, uint64_t b, __m256i c) { CallRec r{}; r.id = 19; put_y(r, 0, a); r.a[1][0] = b; put_y(r, 2, c); log_call(r); C05_RET(c05_clobber_sysv); }
 }
 void* const kCalleePtr[] = { (void*)c05_cal0, (void*)c05_cal1, (void*)c05_cal2, (void*)c05_cal3, (void*)c05_cal4, (void*)c05_cal5,
-                             (void*)c05_cal6, (void*)c05_cal7, (void*)c05_cal8, (void*)c05_cal9, (void*)c05_cal10 };
+                             (void*)c05_cal6, (void*)c05_cal7, (void*)c05_cal8, (void*)c05_cal9, (void*)c05_cal10,
+                             (void*)c05_cal11, (void*)c05_cal12, (void*)c05_cal13, (void*)c05_cal14, (void*)c05_cal15, (void*)c05_cal16, (void*)c05_cal17,
+                             (void*)c05_cal18, (void*)c05_cal19 };
 
 // High-level op kinds (ops[i][0]).
 enum HK { H_ALU, H_UNARY, H_IMUL, H_LEA, H_MOVX, H_SHIFT_I, H_SHIFT_CL, H_MULDIV, H_CMPXCHG, H_XCHG, H_SETCC, H_CMOV, H_BT, H_CNT,
           H_IDIOM, H_TEMP, H_VGX, H_VLDST, H_VALU, H_KOP, H_CALL,
-          H_IF, H_LOOP, H_IRR, H_SWITCH, H_NEXT, H_END, H_RETIF, H_COUNT_ };
+          H_IF, H_LOOP, H_IRR, H_SWITCH, H_NEXT, H_END, H_RETIF,
+          // appended later (older case files only contain the kinds above)
+          H_DISPATCH, H_WLDST, H_WALU, H_WX, H_CALL2, H_COUNT_ };
+constexpr int kLeafKinds[] = { H_ALU, H_UNARY, H_IMUL, H_LEA, H_MOVX, H_SHIFT_I, H_SHIFT_CL, H_MULDIV, H_CMPXCHG, H_XCHG, H_SETCC, H_CMOV, H_BT, H_CNT,
+                               H_IDIOM, H_TEMP, H_VGX, H_VLDST, H_VALU, H_KOP, H_CALL, H_WLDST, H_WALU, H_WX, H_CALL2 };
+constexpr int kNumLeafKinds = int(sizeof(kLeafKinds) / sizeof(kLeafKinds[0]));
 const char* const kHName[] = { "alu", "unary", "imul", "lea", "movx", "shift_imm", "shift_cl", "muldiv", "cmpxchg", "xchg_xadd", "setcc", "cmov", "bt", "cnt",
           "idiom", "temp", "vec_gp_move", "vec_ldst", "vec_alu", "mask_op", "call",
-          "if", "loop", "irreducible", "switch", "next", "end", "retif" };
+          "if", "loop", "irreducible", "switch", "next", "end", "retif",
+          "dispatch", "wide_ldst", "wide_alu", "wide_xlane", "call_conv" };
 
 // Trigger shapes of defects found by this harness. A failing case is re-decoded with one class excluded at a time: when the
 // failure disappears the failure key names the class ("miscompiled:<class>"); a class whose key is a listed known finding is
 // excluded by construction (and counted) so that the search continues.
-enum { EX_RMNARROW, EX_WOPART, EX_CMPXCHG, EX_BTMEM, EX_AND0, EX_RO32, EX_KMOVW, EX_JTCLOBBER, EX_ORMEM, EX_COUNT_ };
-const char* const kExName[EX_COUNT_] = { "rm-narrow-write", "same-reg-wo-partial", "cmpxchg-accumulator", "bt-mem-reg-offset", "and-zero-read-only", "same-reg-ro-zero-extend", "kmovw-gp-mem", "jump-table-target-clobbered", "or-mem-all-ones" };
+enum { EX_RMNARROW, EX_WOPART, EX_CMPXCHG, EX_BTMEM, EX_AND0, EX_RO32, EX_KMOVW, EX_JTCLOBBER, EX_ORMEM, EX_JTBRANCH, EX_COUNT_ };
+const char* const kExName[EX_COUNT_] = { "rm-narrow-write", "same-reg-wo-partial", "cmpxchg-accumulator", "bt-mem-reg-offset", "and-zero-read-only", "same-reg-ro-zero-extend", "kmovw-gp-mem", "jump-table-target-clobbered", "or-mem-all-ones",
+                                         "jump-table-target-is-branch-target" };
+// EX_JTBRANCH: a jump-table target block that is also the target of a direct branch allocated earlier (an empty case whose label
+// coincides with the label after the construct): BaseRAPass::set_shared_assignment() keeps registers in the shared map that
+// are not live into any target; a later alloc_jump_table() -> switch_to_assignment() then trips ASMJIT_ASSERT(dst.equals(cur)).
+inline std::string ex_key(int i) { return std::string(i == EX_JTBRANCH ? "ra-assert:" : "miscompiled:") + kExName[i]; }
 struct Excl { bool on[EX_COUNT_] = {}; };
+// the two jump-table classes share one exclusion (every case starts with a nop): the assertion belongs to EX_JTBRANCH, everything else to EX_JTCLOBBER
+inline bool ex_applies(int i, const std::string& key0) { bool as = key0.rfind("asmjit-assert", 0) == 0; return i == EX_JTBRANCH ? as : i == EX_JTCLOBBER ? !as : true; }
 
 // ------------------------------------------------------------------------------------------------
 // Decoder: Case -> Prog (robust: every integer vector is a valid program)
@@ -186,6 +287,7 @@ struct Dec {
   int gp64() { if (P.idx64.empty()) { raw(); return -1; } return P.idx64[size_t(u(int(P.idx64.size())))]; }
   int vec() { return u(P.nv); }
   int msk() { return u(P.nk); }
+  int wid() { return u(P.nw); }
   int width() { static const int t[4] = {32, 64, 8, 16}; return t[u(4)]; }
   int64_t imm() {
     static const int64_t tbl[] = {1, 0, -1, 2, 5, 0x7f, 0x80, 0xff, 0x100, 0x7fff, 0x8000, 0xffff, 0x10000, 0x7fffffff, -0x80000000LL, 0x55555555, -2, 31, 32, 63};
@@ -207,7 +309,7 @@ struct Lower {
   MemRef mem(Dec& d, int wbytes, bool allow_const, bool allow_idx, int align = 1) {
     MemRef m; int s = d.u(8); int o = d.u(1 << 16); int ix = d.u(4); int sh = d.u(4);
     if (s >= 6 && allow_const) { m.space = s == 6 ? MS_CONSTL : MS_CONSTG; m.off = o % 8; return m; }
-    if (s >= 4 && s < 6 && P.nslots > 0) { m.space = MS_SLOT; m.slot = o % P.nslots; m.off = ((o / 7) % (32 - wbytes + 1)) / align * align; return m; }
+    if (s >= 4 && s < 6 && P.nslots > 0 && wbytes <= 32) { m.space = MS_SLOT; m.slot = o % P.nslots; m.off = ((o / 7) % (32 - wbytes + 1)) / align * align; return m; }
     m.space = MS_BUF;
     int span = SCR_SIZE - wbytes - 56;
     m.off = (o % (span + 1)) / align * align;
@@ -474,7 +576,7 @@ void Lower::lower(const vh::Op& op, int hk, Node& node) {
       break;
     }
     case H_CALL: {
-      int id = d.u(kNumCallees), dd = d.gp();
+      int id = d.u(kNumCallees1), dd = d.gp();
       const char* sig = kCallees[id];
       bool needs_vec = strchr(sig, 'x') != nullptr;
       if (needs_vec && P.nv == 0) { id = id % 8; sig = kCallees[id]; }
@@ -484,6 +586,70 @@ void Lower::lower(const vh::Op& op, int hk, Node& node) {
         int r = d.gp(); int64_t im = d.imm(); int isimm = d.u(5) == 0;
         Opnd a;
         if (sig[1 + i] == 'x') a = Opnd::V(umod(int64_t((uint64_t(r) + uint64_t(im)) & 0xFFFF), P.nv));
+        else if (isimm) a = Opnd::I(sig[1 + i] == 'd' ? int64_t(uint32_t(im)) : im);
+        else if (sig[1 + i] == 'q' && ty(r) != 64) { if (P.idx64.empty()) a = Opnd::I(im); else a = Opnd::R(P.idx64[size_t(r) % P.idx64.size()]); }
+        else a = Opnd::R(r);
+        out->ops.back().args[i] = a; out->ops.back().nargs = i + 1;
+      }
+      break;
+    }
+    case H_WLDST: {
+      if (P.nw == 0) { int a = d.gp(); alu(A_SUB, effw(32, a), Opnd::R(a), Opnd::I(2)); break; }
+      int form = d.u(4), x = d.wid(), y = d.wid(), alt = d.u(2); int wb = P.wbits / 8; P.n_wide++;
+      MOp& o = push(M_WMOV, form == 0 ? 0 : form == 1 ? 2 : 1, P.wbits); o.alt = alt; o.o[0] = Opnd::W(x);
+      if (form == 0) o.o[1] = Opnd::W(y);
+      else { size_t me = out->ops.size() - 1; MemRef m = mem(d, wb, form >= 2, false, alt ? wb : 1); if (m.space != MS_BUF) out->ops[me].alt = 0; out->ops[me].o[1] = Opnd::M(m); P.n_wide_mem++; }
+      break;
+    }
+    case H_WALU: {
+      if (P.nw == 0) { int a = d.gp(); alu(A_XOR, effw(32, a), Opnd::R(a), Opnd::I(5)); break; }
+      int sub = d.u(V_COUNT_ + 1), x = d.wid(), y = d.wid(), z = d.wid(), form = d.u(4), km = d.u(3), alt = d.u(2), im = d.u(256); int wb = P.wbits / 8; P.n_wide++;
+      if (sub == V_COUNT_) {   // vpternlogd (AVX-512 only) else vpshufd
+        if (P.vmode == 2) {
+          int pi = d.u(4); MOp& o = push(M_WTERN, 0, P.wbits); o.o[0] = Opnd::W(x); o.o[1] = Opnd::W(y); o.o[2] = Opnd::W(z);
+          o.imm = pi == 0 ? 0x00 : pi == 1 ? 0xFF : im;
+          if (km == 1 && P.nk > 0) { o.kmask = d.msk(); P.n_mask++; }
+          break;
+        }
+        sub = V_PSHUFD;
+      }
+      if (P.wbits == 512 && (sub == V_PCMPEQD || sub == V_PCMPGTD)) sub = sub == V_PCMPEQD ? V_PADDD : V_PSUBD;   // no zmm compare with a vector destination
+      MOp& o = push(M_WALU, sub, P.wbits); o.alt = alt; o.imm = im;
+      o.o[0] = Opnd::W(x); o.o[1] = Opnd::W(y); o.o[2] = Opnd::W(z);
+      if (sub == V_PSHUFD) o.o[1] = o.o[2];
+      if (form == 3) { size_t me = out->ops.size() - 1; MemRef m = mem(d, wb, true, false, 1); out->ops[me].o[2] = Opnd::M(m); if (sub == V_PSHUFD) out->ops[me].o[1] = out->ops[me].o[2]; P.n_wide_mem++; }
+      if (P.vmode == 2 && km == 1 && P.nk > 0 && sub <= V_PANDN) { out->ops.back().kmask = d.msk(); P.n_mask++; }
+      break;
+    }
+    case H_WX: {
+      if (P.nw == 0) { int a = d.gp(); alu(A_ADD, effw(32, a), Opnd::R(a), Opnd::I(9)); break; }
+      int sub = d.u(WX_COUNT_), wd = d.wid(), wa = d.wid(), wbv = d.wid(), xa = d.vec(), xb = d.vec(), im = d.u(256); P.n_wide++;
+      if (P.nv == 0 && sub != WX_PERM2 && sub != WX_PERMQ) sub = (sub & 1) ? WX_PERM2 : WX_PERMQ;
+      int nl = P.wbits / 128;
+      MOp& o = push(M_WX, sub, P.wbits); o.imm = im;
+      switch (sub) {
+        case WX_EXTRACT: o.o[0] = Opnd::V(xa); o.o[1] = Opnd::W(wa); o.imm = im % nl; P.n_wide_xlane++; break;
+        case WX_EXTRACT_MEM: { o.o[1] = Opnd::W(wa); o.imm = im % nl; size_t me = out->ops.size() - 1; MemRef m = mem(d, 16, false, false, 1); out->ops[me].o[0] = Opnd::M(m); P.n_wide_xlane++; P.n_wide_mem++; break; }
+        case WX_INSERT: o.o[0] = Opnd::W(wd); o.o[1] = Opnd::W(wa); o.o[2] = Opnd::V(xa); o.imm = im % nl; P.n_wide_xlane++; break;
+        case WX_PERM2: o.o[0] = Opnd::W(wd); o.o[1] = Opnd::W(wa); o.o[2] = Opnd::W(wbv); P.n_wide_xlane++; break;
+        case WX_PERMQ: o.o[0] = Opnd::W(wd); o.o[1] = Opnd::W(wa); P.n_wide_xlane++; break;
+        case WX_BCAST: o.o[0] = Opnd::W(wd); o.o[1] = Opnd::V(xa); break;
+        case WX_LOWREAD: o.o[0] = Opnd::V(xa); o.o[1] = Opnd::W(wa); P.n_wide_lowview++; break;
+        default: o.o[0] = Opnd::W(wd); o.o[1] = Opnd::V(xa); o.o[2] = Opnd::V(xb); P.n_wide_lowview++; break;   // WX_LOWWRITE
+      }
+      break;
+    }
+    case H_CALL2: {
+      int id = kNumCallees1 + d.u(kNumCallees - kNumCallees1), dd = d.gp();
+      if (strchr(kCallees[id], 'y') && (P.nw == 0 || P.wbits != 256)) id = kNumCallees1 + (id - kNumCallees1) % kNumCallees2NoWide;
+      const char* sig = kCallees[id];
+      MOp& o = push(M_CALL, id, 64); P.n_calls++;
+      if (kCalleeConv[id] == CV_WIN64) P.n_calls_win++; else if (kCalleeConv[id] == CV_VECTORCALL) P.n_calls_vcall++; else P.n_calls_widearg++;
+      o.o[0] = sig[0] == 'y' ? Opnd::W(d.wid()) : Opnd::R(dd);
+      for (int i = 0; sig[1 + i]; i++) {
+        int r = d.gp(); int64_t im = d.imm(); int isimm = d.u(5) == 0;
+        Opnd a;
+        if (sig[1 + i] == 'y') a = Opnd::W(umod(int64_t((uint64_t(r) + uint64_t(im)) & 0xFFFF), P.nw));
         else if (isimm) a = Opnd::I(sig[1 + i] == 'd' ? int64_t(uint32_t(im)) : im);
         else if (sig[1 + i] == 'q' && ty(r) != 64) { if (P.idx64.empty()) a = Opnd::I(im); else a = Opnd::R(P.idx64[size_t(r) % P.idx64.size()]); }
         else a = Opnd::R(r);
@@ -522,6 +688,14 @@ void Lower::fix(MOp& m) {
   if (ex.on[EX_RMNARROW] && m.k == M_ALU && m.sub == A_XCHG && m.w == 32 && is_reg(m.o[1]) && ty(m.o[1].r) == 64) { m.sub = A_MOV; P.n_excl[EX_RMNARROW]++, P.n_excluded++; }
 }
 
+// the p-th permutation (0..23) of {0,1,2,3}, restricted to the elements < n (in that order)
+inline void perm_of(int p, int n, int* out) {
+  int pool[4] = {0, 1, 2, 3}, full[4]; p = umod(p, 24);
+  static const int f[4] = {6, 2, 1, 1};
+  for (int i = 0; i < 4; i++) { int q = p / f[i]; p %= f[i]; full[i] = pool[q]; for (int j = q; j < 3 - i; j++) pool[j] = pool[j + 1]; }
+  int c = 0; for (int i = 0; i < 4; i++) if (full[i] < n) out[c++] = full[i];
+  for (; c < 4; c++) out[c] = 0;
+}
 inline int clampi(int64_t v, int lo, int hi) { return int(v < lo ? lo : v > hi ? hi : v); }
 
 void count_depth(Prog& P, const std::vector<Node>& l, int depth) {
@@ -544,6 +718,8 @@ void decode_case(const vh::Case& c, const Excl& ex, Prog& P) {
   P.nslots = umod(cf(9), kMaxSlots + 1);
   P.inseed = uint64_t(cf(10));
   P.initsel = umod(cf(11), 4);
+  P.nw = P.vmode >= 1 ? umod(cf(12), kMaxW + 1) : 0;                          // wide values need VEX/EVEX code
+  P.wbits = (umod(cf(13), 2) == 1 && P.vmode == 2 && g_host_avx512) ? 512 : 256;
   P.gty.resize(size_t(P.ng));
   for (int i = 0; i < P.ng; i++) {
     int t = P.tysel == 0 ? 64 : P.tysel == 1 ? 32 : P.tysel == 2 ? ((i & 1) ? 32 : 64) : ((mix64(uint64_t(i) * 77 + 5) & 1) ? 32 : 64);
@@ -556,24 +732,52 @@ void decode_case(const vh::Case& c, const Excl& ex, Prog& P) {
   auto close = [&]() {
     Node n = std::move(st.back()); st.pop_back();
     if (n.kind == N_IF || n.kind == N_IRR) while (n.parts.size() < 2) n.parts.emplace_back();
+    if (n.kind == N_DISPATCH) {
+      while (int(n.parts.size()) < 2 + n.n) n.parts.emplace_back();
+      // statistics (the allocator walks the blocks in code order: arm A, arm B, case 0, case 1, ...)
+      std::function<bool(const std::vector<Node>&, int)> has = [&](const std::vector<Node>& l, int what) {
+        for (const Node& q : l) {
+          for (const MOp& m : q.ops) { if (what == 0 && m.k == M_CALL) return true; if (what == 1 && m.k != M_CALL && m.o[0].t == T_REG && !(m.k == M_ALU && (m.sub == A_CMP || m.sub == A_TEST))) return true; }
+          for (auto& pp : q.parts) if (has(pp, what)) return true;
+        }
+        return false;
+      };
+      int order[3][4]; for (int j = 0; j < 3; j++) perm_of(n.sameann ? n.perm[0] : n.perm[j], n.n, order[j]);
+      P.n_dispatch++; P.n_disp_jumps += 2; if (n.sameann) P.n_disp_sameann++;
+      P.n_disp_unalloc_first++;                                    // arm B: every case is still unallocated, the shared assignment is set
+      for (int i = 0; i < n.n; i++) if ((n.redisp >> i) & 1) { P.n_disp_jumps++; P.n_disp_redisp++; if (order[2][0] > i) P.n_disp_unalloc_first++; }
+      bool call_in = false; for (size_t i = 2; i < n.parts.size(); i++) if (has(n.parts[i], 0)) call_in = true;
+      if (call_in) P.n_disp_call_inside++;
+      bool wr = has(n.parts[1], 1); for (int i = 0; i < n.n; i++) if (((n.redisp >> i) & 1) && has(n.parts[size_t(2 + i)], 1)) wr = true;
+      if (wr) P.n_disp_write_in_arm++;
+    }
     st.back().parts.back().push_back(std::move(n));
   };
   size_t total = 0;
   for (const vh::Op& op : c.ops) {
     if (++total > 400) break;
     int hk = umod(fld(op, 0), H_COUNT_);
-    if (hk == H_IF || hk == H_IRR || hk == H_LOOP || hk == H_SWITCH) {
+    if (hk == H_IF || hk == H_IRR || hk == H_LOOP || hk == H_SWITCH || hk == H_DISPATCH) {
       if (st.size() > 4) continue;
       Node n; n.hl = hk; Dec d(P, op);
-      if (hk == H_LOOP) { n.kind = N_LOOP; n.n = 1 + d.u(3); n.flag = d.u(2); P.n_loops++; }
-      else if (hk == H_SWITCH) { n.kind = N_SWITCH; n.sel = d.gp(); n.n = 1 + d.u(4); n.flag = d.u(3) == 0; n.ntab = 4; P.n_switch++; if (ex.on[EX_JTCLOBBER]) { n.pad = 1; P.n_excl[EX_JTCLOBBER]++, P.n_excluded++; } }
+      if (hk == H_DISPATCH) {
+        n.kind = N_DISPATCH; n.sel = d.gp(); n.sel2 = d.gp(); n.sel3 = d.gp(); n.n = 1 + d.u(4); n.cc = d.u(16);
+        n.perm[0] = d.u(24); n.perm[1] = d.u(24); n.perm[2] = d.u(24); n.redisp = d.u(16) & ((1 << n.n) - 1); n.n2 = 1 + d.u(3);
+        n.flag = d.u(3) == 0; n.sameann = d.u(3) == 0; n.rot = d.u(4); n.ntab = 4;
+        if (P.n_calls) P.n_disp_after_call++;
+        if (ex.on[EX_JTCLOBBER]) { n.pad = 1; P.n_excl[EX_JTCLOBBER]++, P.n_excluded++; }
+        if (ex.on[EX_JTBRANCH]) { n.pad = 1; P.n_excl[EX_JTBRANCH]++, P.n_excluded++; }
+        L.out = &n; L.cond(d);
+      }
+      else if (hk == H_LOOP) { n.kind = N_LOOP; n.n = 1 + d.u(3); n.flag = d.u(2); P.n_loops++; }
+      else if (hk == H_SWITCH) { n.kind = N_SWITCH; n.sel = d.gp(); n.n = 1 + d.u(4); n.flag = d.u(3) == 0; n.ntab = 4; P.n_switch++; if (ex.on[EX_JTCLOBBER]) { n.pad = 1; P.n_excl[EX_JTCLOBBER]++, P.n_excluded++; } if (ex.on[EX_JTBRANCH]) { n.pad = 1; P.n_excl[EX_JTBRANCH]++, P.n_excluded++; } }
       else { n.kind = hk == H_IF ? N_IF : N_IRR; n.cc = d.u(16); if (hk == H_IRR) { n.n = 1 + d.u(3); P.n_irr++; } else P.n_if++; L.out = &n; L.cond(d); }
       n.parts.emplace_back();
       st.push_back(std::move(n));
     } else if (hk == H_NEXT) {
       if (st.size() <= 1) continue;
       Node& t = st.back();
-      if (((t.kind == N_IF || t.kind == N_IRR) && t.parts.size() < 2) || (t.kind == N_SWITCH && int(t.parts.size()) < t.n)) t.parts.emplace_back();
+      if (((t.kind == N_IF || t.kind == N_IRR) && t.parts.size() < 2) || (t.kind == N_SWITCH && int(t.parts.size()) < t.n) || (t.kind == N_DISPATCH && int(t.parts.size()) < 2 + t.n)) t.parts.emplace_back();
     } else if (hk == H_END) {
       if (st.size() > 1) close();
     } else if (hk == H_RETIF) {
@@ -599,6 +803,7 @@ std::string show_opnd(const Prog& P, const Opnd& o, int w) {
     case T_REG: snprintf(b, sizeof b, "%s%d:%d.%d", size_t(o.r) >= size_t(P.ng) ? "t" : "v", o.r, size_t(o.r) < P.gty.size() ? P.gty[size_t(o.r)] : 0, w); return b;
     case T_VEC: snprintf(b, sizeof b, "x%d", o.r); return b;
     case T_MSK: snprintf(b, sizeof b, "k%d", o.r); return b;
+    case T_WID: snprintf(b, sizeof b, "%c%d", P.wbits == 512 ? 'z' : 'y', o.r); return b;
     case T_IMM: snprintf(b, sizeof b, "%lld", (long long)o.imm); return b;
     case T_MEM:
       if (o.m.space == MS_BUF) { if (o.m.idx >= 0) snprintf(b, sizeof b, "[scr+%d+v%d<<%d].%d", o.m.off, o.m.idx, o.m.shift, w); else snprintf(b, sizeof b, "[scr+%d].%d", o.m.off, w); }
@@ -609,7 +814,8 @@ std::string show_opnd(const Prog& P, const Opnd& o, int w) {
   }
 }
 std::string show_mop(const Prog& P, const MOp& m) {
-  static const char* const kn[] = {"alu", "un", "imul3", "lea", "movx", "shift", "muldiv", "cdq", "cmpxchg", "set", "cmov", "bt", "cnt", "vgx", "vmov", "valu", "vtern", "kop", "kcmp", "call"};
+  static const char* const kn[] = {"alu", "un", "imul3", "lea", "movx", "shift", "muldiv", "cdq", "cmpxchg", "set", "cmov", "bt", "cnt", "vgx", "vmov", "valu", "vtern", "kop", "kcmp", "call", "wmov", "walu", "wtern", "wx"};
+  static const char* const wxn[] = {"extract128", "insert128", "perm2x128", "bcastd", "lowread", "lowwrite_paddd", "permq", "extract128_mem"};
   static const char* const an[] = {"add", "sub", "and", "or", "xor", "mov", "cmp", "test", "imul", "xchg", "xadd"};
   static const char* const un[] = {"not", "neg", "inc", "dec"};
   static const char* const sn[] = {"shl", "shr", "sar", "rol", "ror"};
@@ -628,13 +834,16 @@ std::string show_mop(const Prog& P, const MOp& m) {
     case M_MOVX: name = m.sub == X_SX ? "movsx" : "movzx"; break;
     case M_VMOV: name = m.sub == 0 ? "vmov" : m.sub == 1 ? "vload" : "vstore"; break;
     case M_KCMP: name = m.sub ? "vpcmpgtd_k" : "vpcmpeqd_k"; break;
+    case M_WMOV: name = m.sub == 0 ? "wmov" : m.sub == 1 ? "wload" : "wstore"; break;
+    case M_WALU: name = vn[m.sub]; break; case M_WX: name = wxn[m.sub]; break;
     default: break;
   }
   s += name;
   if (m.k == M_SETCC || m.k == M_CMOV) s += kCC[m.cc & 15];
-  if (m.k == M_CALL) { s += std::to_string(m.sub); s += "("; for (int i = 0; i < m.nargs; i++) { if (i) s += ", "; s += show_opnd(P, m.args[i], 64); } s += ") -> " + show_opnd(P, m.o[0], 64); return s; }
+  if (m.k == M_CALL) { s += std::to_string(m.sub); s += kCalleeConv[m.sub] == CV_WIN64 ? "[win64]" : kCalleeConv[m.sub] == CV_VECTORCALL ? "[vectorcall]" : ""; s += "("; for (int i = 0; i < m.nargs; i++) { if (i) s += ", "; s += show_opnd(P, m.args[i], 64); } s += ") -> " + show_opnd(P, m.o[0], 64); return s; }
   for (int i = 0; i < 4; i++) if (m.o[i].t != T_NONE) { s += i ? ", " : " "; s += show_opnd(P, m.o[i], (m.k == M_MOVX && i == 1) ? m.w2 : (m.k == M_SETCC ? 8 : m.w)); }
-  if (m.k == M_IMUL3 || m.k == M_VGX || m.k == M_VTERN || (m.k == M_VALU && m.sub == V_PSHUFD) || (m.k == M_LEA)) s += " #" + std::to_string((long long)m.imm);
+  if (m.k == M_WALU || m.k == M_WTERN || m.k == M_WX || m.k == M_WMOV) s += m.w == 512 ? " (zmm)" : " (ymm)";
+  if (m.k == M_IMUL3 || m.k == M_VGX || m.k == M_VTERN || m.k == M_WTERN || m.k == M_WX || ((m.k == M_VALU || m.k == M_WALU) && m.sub == V_PSHUFD) || (m.k == M_LEA)) s += " #" + std::to_string((long long)m.imm);
   if (m.k == M_LEA) s += " aw" + std::to_string(m.w2);
   if (m.kmask >= 0) s += " {k" + std::to_string(m.kmask) + "}";
   return s;
@@ -645,8 +854,15 @@ void show_nodes(const Prog& P, const std::vector<Node>& l, int ind, std::string&
     if (n.kind == N_OP) { for (const MOp& m : n.ops) { pad(ind); s += show_mop(P, m); s += "\n"; } continue; }
     for (const MOp& m : n.ops) { pad(ind); s += show_mop(P, m); s += "\n"; }
     pad(ind);
-    char b[96];
+    char b[256];
     switch (n.kind) {
+      case N_DISPATCH: {
+        int o[3][4]; for (int j = 0; j < 3; j++) perm_of(n.sameann ? n.perm[0] : n.perm[j], n.n, o[j]);
+        auto ord = [&](int j) { std::string t; for (int i = 0; i < n.n; i++) t += char('0' + o[j][i]); return t; };
+        snprintf(b, sizeof b, "dispatch if %s {A: ...; jmp case[table[v%d & 3]] (labels %s)} else {B: ...; jmp case[table[v%d & 3]] (labels %s)}; %d cases, table rot %d, re-dispatch mask %#x on v%d (labels %s) budget %d%s%s {  A:\n",
+                 kCC[n.cc], n.sel, ord(0).c_str(), n.sel2, ord(1).c_str(), n.n, n.rot, n.redisp, n.sel3, ord(2).c_str(), n.n2, n.flag ? ", fallthrough" : "", n.sameann ? ", one JumpAnnotation object" : ", one JumpAnnotation per jump");
+        break;
+      }
       case N_IF: snprintf(b, sizeof b, "if %s {\n", kCC[n.cc]); break;
       case N_LOOP: snprintf(b, sizeof b, "loop %d {\n", n.n); break;
       case N_IRR: snprintf(b, sizeof b, "cycle %d, if %s enter at B {  A:\n", n.n, kCC[n.cc]); break;
@@ -656,7 +872,7 @@ void show_nodes(const Prog& P, const std::vector<Node>& l, int ind, std::string&
     }
     s += b;
     for (size_t p = 0; p < n.parts.size(); p++) {
-      if (p) { pad(ind); s += n.kind == N_IF ? "} else {\n" : n.kind == N_IRR ? "  B:\n" : "} case {\n"; }
+      if (p) { pad(ind); s += n.kind == N_IF ? "} else {\n" : n.kind == N_IRR ? "  B:\n" : (n.kind == N_DISPATCH && p == 1) ? "  B:\n" : (n.kind == N_DISPATCH && p == 2) ? "  case {\n" : "} case {\n"; }
       show_nodes(P, n.parts[p], ind + 1, s);
     }
     if (n.kind != N_RETIF) { pad(ind); s += "}\n"; }
@@ -664,8 +880,8 @@ void show_nodes(const Prog& P, const std::vector<Node>& l, int ind, std::string&
 }
 std::string show_prog(const Prog& P) {
   char b[256];
-  snprintf(b, sizeof b, "prog ng=%d (tysel %d) nv=%d nk=%d vmode=%d nargs=%d foldfrac=%d foldsel=%d pressure=%d nslots=%d temps=%d\n",
-           P.ng, P.tysel, P.nv, P.nk, P.vmode, P.nargs, P.foldfrac, P.foldsel, P.pressure, P.nslots, P.ntemps);
+  snprintf(b, sizeof b, "prog ng=%d (tysel %d) nv=%d nk=%d vmode=%d nargs=%d foldfrac=%d foldsel=%d pressure=%d nslots=%d temps=%d nw=%d (%s)\n",
+           P.ng, P.tysel, P.nv, P.nk, P.vmode, P.nargs, P.foldfrac, P.foldsel, P.pressure, P.nslots, P.ntemps, P.nw, P.wbits == 512 ? "zmm" : "ymm");
   std::string s = b;
   show_nodes(P, P.body, 1, s);
   return s;
@@ -696,13 +912,14 @@ inline int init_kind(const Prog& P, int i) { int h = int(mix64(uint64_t(i) * 31 
 constexpr uint64_t kRetMarker = 0x5EED0000C0DEull;
 
 struct VecVal { uint32_t l[4]; };
+struct WVal { uint32_t l[16]; };     // ymm: lanes 0..7 (8..15 stay zero), zmm: 0..15
 
 struct Interp {
   const Prog& P;
-  std::vector<uint64_t> g; VecVal x[kMaxV + 1]; uint64_t k[kMaxK + 1];
+  std::vector<uint64_t> g; VecVal x[kMaxV + 1]; uint64_t k[kMaxK + 1]; WVal wd[kMaxW + 1];
   uint8_t* buf = nullptr;
   alignas(16) uint8_t slots[kMaxSlots][32];
-  alignas(16) uint8_t cbuf[16];
+  alignas(64) uint8_t cbuf[64];
   Flags fl;
   std::vector<CallRec> log;
   bool returned = false; uint64_t retval = 0;
@@ -713,7 +930,7 @@ struct Interp {
     switch (m.space) {
       case MS_BUF: return buf + OFF_SCR + m.off + (m.idx >= 0 ? (g[size_t(m.idx)] << m.shift) : 0);
       case MS_SLOT: return slots[m.slot] + m.off;
-      default: { uint64_t t[2] = {const_word(m.space, m.off, 0), const_word(m.space, m.off, 1)}; memcpy(cbuf, t, 16); return cbuf; }
+      default: { uint64_t t[8]; for (int h = 0; h < 8; h++) t[h] = const_word(m.space, m.off, h); memcpy(cbuf, t, 64); return cbuf; }
     }
   }
   uint64_t rd(const Opnd& o, int w) {
@@ -730,6 +947,7 @@ struct Interp {
     else if (o.t == T_MEM) memcpy(addr(o.m), &v, size_t(w / 8));
   }
   VecVal rdv(const Opnd& o) { VecVal v; if (o.t == T_VEC) v = x[o.r]; else memcpy(&v, addr(o.m), 16); return v; }
+  WVal rdw(const Opnd& o) { WVal v; memset(&v, 0, sizeof v); if (o.t == T_WID) v = wd[o.r]; else memcpy(&v, addr(o.m), size_t(P.wbits / 8)); return v; }
 
   void exec(const MOp& m) {
     int w = m.w; steps++;
@@ -838,15 +1056,62 @@ struct Interp {
         if (m.kmask >= 0) r &= k[m.kmask];
         k[m.o[0].r] = r; break;
       }
+      case M_WMOV: { if (m.sub == 2) { WVal v = wd[m.o[0].r]; memcpy(addr(m.o[1].m), &v, size_t(P.wbits / 8)); } else wd[m.o[0].r] = rdw(m.o[1]); break; }
+      case M_WALU: case M_WTERN: {
+        int nl = P.wbits / 32;
+        WVal a = rdw(m.o[1]), b = rdw(m.o[2]), old = wd[m.o[0].r], r = old;
+        for (int i = 0; i < nl; i++) {
+          uint32_t p = a.l[i], q = b.l[i];
+          if (m.k == M_WTERN) { uint32_t o = 0, A = old.l[i]; for (int bit = 0; bit < 32; bit++) { unsigned idx = (((A >> bit) & 1) << 2) | (((p >> bit) & 1) << 1) | ((q >> bit) & 1); o |= uint32_t((m.imm >> idx) & 1) << bit; } r.l[i] = o; continue; }
+          switch (m.sub) {
+            case V_PADDD: r.l[i] = p + q; break; case V_PSUBD: r.l[i] = p - q; break; case V_PXOR: r.l[i] = p ^ q; break;
+            case V_PAND: r.l[i] = p & q; break; case V_POR: r.l[i] = p | q; break; case V_PANDN: r.l[i] = ~p & q; break;
+            case V_PCMPEQD: r.l[i] = p == q ? ~0u : 0; break; case V_PCMPGTD: r.l[i] = int32_t(p) > int32_t(q) ? ~0u : 0; break;
+            case V_PSHUFD: r.l[i] = b.l[(i & ~3) + ((m.imm >> (2 * (i & 3))) & 3)]; break;
+          }
+        }
+        if (m.kmask >= 0) for (int i = 0; i < nl; i++) if (!((k[m.kmask] >> i) & 1)) r.l[i] = old.l[i];
+        wd[m.o[0].r] = r; break;
+      }
+      case M_WX: {
+        int nl = P.wbits / 128;   // number of 128-bit lanes
+        auto lane = [](const WVal& v, int i) { VecVal r; memcpy(&r, &v.l[4 * i], 16); return r; };
+        auto setlane = [](WVal& v, int i, const VecVal& s) { memcpy(&v.l[4 * i], &s, 16); };
+        switch (m.sub) {
+          case WX_EXTRACT: x[m.o[0].r] = lane(wd[m.o[1].r], int(m.imm) % nl); break;
+          case WX_EXTRACT_MEM: { VecVal v = lane(wd[m.o[1].r], int(m.imm) % nl); memcpy(addr(m.o[0].m), &v, 16); break; }
+          case WX_INSERT: { WVal r = wd[m.o[1].r]; setlane(r, int(m.imm) % nl, x[m.o[2].r]); wd[m.o[0].r] = r; break; }
+          case WX_PERM2: {
+            WVal a = wd[m.o[1].r], b = wd[m.o[2].r], r; memset(&r, 0, sizeof r);
+            if (nl == 2) {   // vperm2i128
+              for (int h = 0; h < 2; h++) { int c = int(m.imm >> (4 * h)) & 15; VecVal v = lane((c & 2) ? b : a, c & 1); if (c & 8) memset(&v, 0, 16); setlane(r, h, v); }
+            } else {         // vshufi32x4
+              for (int h = 0; h < 4; h++) setlane(r, h, lane(h < 2 ? a : b, int(m.imm >> (2 * h)) & 3));
+            }
+            wd[m.o[0].r] = r; break;
+          }
+          case WX_PERMQ: {   // vpermq imm: every 256-bit half permutes its four qwords
+            WVal a = wd[m.o[1].r], r; memset(&r, 0, sizeof r);
+            for (int h = 0; h < P.wbits / 256; h++) for (int q = 0; q < 4; q++) { int sq = int(m.imm >> (2 * q)) & 3; memcpy(&r.l[8 * h + 2 * q], &a.l[8 * h + 2 * sq], 8); }
+            wd[m.o[0].r] = r; break;
+          }
+          case WX_BCAST: { WVal r; memset(&r, 0, sizeof r); for (int i = 0; i < P.wbits / 32; i++) r.l[i] = x[m.o[1].r].l[0]; wd[m.o[0].r] = r; break; }
+          case WX_LOWREAD: x[m.o[0].r] = lane(wd[m.o[1].r], 0); break;
+          default: { WVal r; memset(&r, 0, sizeof r); for (int i = 0; i < 4; i++) r.l[i] = x[m.o[1].r].l[i] + x[m.o[2].r].l[i]; wd[m.o[0].r] = r; break; }   // WX_LOWWRITE: a VEX/EVEX.128 write zeroes the rest
+        }
+        break;
+      }
       case M_CALL: {
         CallRec r{}; r.id = m.sub; const char* sig = kCallees[m.sub];
         for (int i = 0; i < m.nargs; i++) {
           const Opnd& a = m.args[i];
           if (sig[1 + i] == 'x') { memcpy(r.a[i], &x[a.r], 16); }
+          else if (sig[1 + i] == 'y') { memcpy(r.a[i], &wd[a.r], 32); }
           else { uint64_t v = a.t == T_IMM ? uint64_t(a.imm) : g[size_t(a.r)]; r.a[i][0] = sig[1 + i] == 'd' ? uint32_t(v) : v; }
         }
         callee_model(r); if (log.size() < 4096) log.push_back(r);
         if (sig[0] == 'x') memcpy(&x[m.o[0].r], r.ret, 16);
+        else if (sig[0] == 'y') { memset(&wd[m.o[0].r], 0, sizeof(WVal)); memcpy(&wd[m.o[0].r], r.ret, 32); }
         else { int t = size_t(m.o[0].r) < P.gty.size() ? P.gty[size_t(m.o[0].r)] : 64; wr(m.o[0], t, r.ret[0]); }
         break;
       }
@@ -871,6 +1136,23 @@ struct Interp {
           if (n.flag) { for (size_t j = ci; j < nc && !returned; j++) run_list(n.parts[j]); } else run_list(n.parts[ci]);
           break;
         }
+        case N_DISPATCH: {
+          for (const MOp& m : n.ops) exec(m);
+          bool armA = eval_cc(n.cc, fl);
+          run_list(n.parts[armA ? 0 : 1]);
+          if (returned) break;
+          size_t nc = size_t(n.n); int cnt = n.n2;
+          auto entry = [&](int sel) { return (size_t(g[size_t(sel)] & 3) + size_t(n.rot)) % nc; };
+          size_t ci = entry(armA ? n.sel : n.sel2);
+          for (;;) {
+            run_list(n.parts[2 + ci]);
+            if (returned) break;
+            if ((n.redisp >> ci) & 1) { if (--cnt == 0) break; ci = entry(n.sel3); continue; }
+            if (n.flag && ci + 1 < nc) { ci++; continue; }
+            break;
+          }
+          break;
+        }
         case N_RETIF:
           for (const MOp& m : n.ops) exec(m);
           if (eval_cc(n.cc, fl)) { returned = true; retval = kRetMarker ^ g[size_t(n.sel)]; }
@@ -890,6 +1172,7 @@ struct Interp {
     }
     for (int j = 0; j < P.nv; j++) memcpy(&x[j], b + OFF_VIN + 16 * j, 16);
     for (int j = 0; j < P.nk; j++) { uint16_t t; memcpy(&t, b + OFF_KIN + 8 * j, 2); k[j] = t; }
+    for (int j = 0; j < P.nw; j++) { memset(&wd[j], 0, sizeof(WVal)); memcpy(&wd[j], b + OFF_WIN + 64 * j, size_t(P.wbits / 8)); }
     for (int s = 0; s < P.nslots; s++) for (int j = 0; j < 4; j++) { int64_t v = slot_init(s, j); memcpy(slots[s] + 8 * j, &v, 8); }
     uint64_t acc2 = 0;
     for (int i = 0; i < P.pressure; i++) { uint64_t v; memcpy(&v, b + OFF_PIN + 8 * i, 8); acc2 = ((acc2 << 3) | (acc2 >> 61)) ^ v; }
@@ -904,6 +1187,7 @@ struct Interp {
     }
     for (int j = 0; j < P.nv; j++) if (P.folded(j)) memcpy(b + OFF_VOUT + 16 * j, &x[j], 16);
     for (int j = 0; j < P.nk; j++) if (P.folded(j)) { uint16_t t = uint16_t(k[j]); memcpy(b + OFF_KOUT + 8 * j, &t, 2); }
+    for (int j = 0; j < P.nw; j++) if (P.folded(j)) memcpy(b + OFF_WOUT + 64 * j, &wd[j], size_t(P.wbits / 8));
     if (P.pressure) memcpy(b + OFF_RES2, &acc2, 8);
     return acc;
   }
@@ -921,7 +1205,7 @@ public:
 struct X86Emit {
   x86::Compiler& cc; const Prog& P; bool is64; int pressure;
   Error first_err = Error::kOk;
-  std::vector<x86::Gp> g; std::vector<x86::Vec> x; std::vector<x86::KReg> k;
+  std::vector<x86::Gp> g; std::vector<x86::Vec> x; std::vector<x86::KReg> k; std::vector<x86::Vec> wv;
   std::vector<x86::Gp> pd; std::vector<x86::Vec> pv;
   std::vector<x86::Mem> slots;
   x86::Gp buf, acc, tmp;
@@ -944,7 +1228,7 @@ struct X86Emit {
         return x86::ptr(buf, OFF_SCR + m.off, uint32_t(wbytes));
       case MS_SLOT: { x86::Mem s = slots[size_t(m.slot)]; s.add_offset(m.off); s.set_size(uint32_t(wbytes)); return s; }
       default: {
-        uint64_t t[2] = {const_word(m.space, m.off, 0), const_word(m.space, m.off, 1)};
+        uint64_t t[8]; for (int h = 0; h < 8; h++) t[h] = const_word(m.space, m.off, h);
         return cc.new_const(m.space == MS_CONSTL ? ConstPoolScope::kLocal : ConstPoolScope::kGlobal, t, size_t(wbytes));
       }
     }
@@ -954,6 +1238,7 @@ struct X86Emit {
       case T_REG: return gv(o.r, w);
       case T_VEC: return x[size_t(o.r)];
       case T_MSK: return k[size_t(o.r)];
+      case T_WID: return wv[size_t(o.r)];
       case T_IMM: return Imm(is64 || w == 64 ? o.imm : int64_t(int32_t(o.imm)));
       case T_MEM: return mem(o.m, w / 8);
       default: return Operand();
@@ -961,6 +1246,7 @@ struct X86Emit {
   }
   void emit_mop(const MOp& m);
   void emit_list(const std::vector<Node>& l);
+  void emit_indirect(int sel, const Label& table, JumpAnnotation* ann);
   void prologue();
   void epilogue();
   void build() { prologue(); emit_list(P.body); epilogue(); }
@@ -1081,22 +1367,73 @@ void X86Emit::emit_mop(const MOp& m) {
     }
     case M_CALL: {
       const char* sig = kCallees[m.sub];
-      FuncSignature fs(CallConvId::kCDecl);
-      fs.set_ret(sig[0] == 'x' ? TypeId::kInt32x4 : (is64 ? TypeId::kUInt64 : TypeId::kUInt32));
-      for (int i = 0; sig[1 + i]; i++) fs.add_arg(sig[1 + i] == 'x' ? TypeId::kInt32x4 : (sig[1 + i] == 'q' && is64) ? TypeId::kUInt64 : TypeId::kUInt32);
+      // x86-32 (compile only): stdcall / fastcall stand in for the two Windows x64 conventions
+      CallConvId cv = kCalleeConv[m.sub] == CV_WIN64 ? (is64 ? CallConvId::kX64Windows : CallConvId::kStdCall)
+                    : kCalleeConv[m.sub] == CV_VECTORCALL ? (is64 ? CallConvId::kVectorCall : CallConvId::kFastCall) : CallConvId::kCDecl;
+      FuncSignature fs(cv);
+      fs.set_ret(sig[0] == 'x' ? TypeId::kInt32x4 : sig[0] == 'y' ? TypeId::kInt32x8 : (is64 ? TypeId::kUInt64 : TypeId::kUInt32));
+      for (int i = 0; sig[1 + i]; i++) fs.add_arg(sig[1 + i] == 'x' ? TypeId::kInt32x4 : sig[1 + i] == 'y' ? TypeId::kInt32x8 : (sig[1 + i] == 'q' && is64) ? TypeId::kUInt64 : TypeId::kUInt32);
       InvokeNode* inv = nullptr;
       E(cc.invoke(Out(inv), imm(is64 ? kCalleePtr[m.sub] : (void*)0x1000), fs));
       if (!inv) break;
       for (int i = 0; i < m.nargs; i++) {
         const Opnd& a = m.args[i];
         if (a.t == T_VEC) inv->set_arg(size_t(i), x[size_t(a.r)]);
+        else if (a.t == T_WID) inv->set_arg(size_t(i), wv[size_t(a.r)]);
         else if (a.t == T_IMM) inv->set_arg(size_t(i), Imm(is64 ? a.imm : int64_t(int32_t(a.imm))));
         else inv->set_arg(size_t(i), g[size_t(a.r)]);
       }
-      if (m.o[0].t == T_VEC) inv->set_ret(0, x[size_t(m.o[0].r)]); else inv->set_ret(0, g[size_t(m.o[0].r)]);
+      if (m.o[0].t == T_VEC) inv->set_ret(0, x[size_t(m.o[0].r)]); else if (m.o[0].t == T_WID) inv->set_ret(0, wv[size_t(m.o[0].r)]); else inv->set_ret(0, g[size_t(m.o[0].r)]);
+      break;
+    }
+    case M_WMOV: {
+      const Vec& v = wv[size_t(m.o[0].r)]; uint32_t wb = uint32_t(P.wbits / 8);
+      InstId id = m.alt ? Inst::kIdVmovdqa : Inst::kIdVmovdqu;
+      if (P.wbits == 512 || (P.vmode == 2 && (m.o[0].r & 1))) id = m.alt ? Inst::kIdVmovdqa32 : Inst::kIdVmovdqu32;
+      if (m.sub == 0) E(cc.emit(id, v, wv[size_t(m.o[1].r)]));
+      else if (m.sub == 1) E(cc.emit(id, v, mem(m.o[1].m, int(wb))));
+      else E(cc.emit(id, mem(m.o[1].m, int(wb)), v));
+      break;
+    }
+    case M_WALU: {
+      static const InstId vex[] = {Inst::kIdVpaddd, Inst::kIdVpsubd, Inst::kIdVpxor, Inst::kIdVpand, Inst::kIdVpor, Inst::kIdVpandn, Inst::kIdVpcmpeqd, Inst::kIdVpcmpgtd, Inst::kIdVpshufd};
+      static const InstId evx[] = {Inst::kIdVpaddd, Inst::kIdVpsubd, Inst::kIdVpxord, Inst::kIdVpandd, Inst::kIdVpord, Inst::kIdVpandnd, Inst::kIdVpcmpeqd, Inst::kIdVpcmpgtd, Inst::kIdVpshufd};
+      const Vec& d = wv[size_t(m.o[0].r)];
+      Operand b = m.o[2].t == T_MEM ? Operand(mem(m.o[2].m, P.wbits / 8)) : Operand(wv[size_t(m.o[2].r)]);
+      InstId id = (P.wbits == 512 || (P.vmode == 2 && (m.kmask >= 0 || m.alt))) ? evx[m.sub] : vex[m.sub];
+      if (m.kmask >= 0) cc.k(k[size_t(m.kmask)]);
+      if (m.sub == V_PSHUFD) E(cc.emit(id, d, b, Imm(m.imm))); else E(cc.emit(id, d, wv[size_t(m.o[1].r)], b));
+      break;
+    }
+    case M_WTERN: {
+      if (m.kmask >= 0) cc.k(k[size_t(m.kmask)]);
+      E(cc.emit(Inst::kIdVpternlogd, wv[size_t(m.o[0].r)], wv[size_t(m.o[1].r)], wv[size_t(m.o[2].r)], Imm(m.imm))); break;
+    }
+    case M_WX: {
+      bool z = P.wbits == 512;
+      switch (m.sub) {
+        case WX_EXTRACT: E(cc.emit(z ? Inst::kIdVextracti32x4 : Inst::kIdVextracti128, x[size_t(m.o[0].r)], wv[size_t(m.o[1].r)], Imm(m.imm))); break;
+        case WX_EXTRACT_MEM: E(cc.emit(z ? Inst::kIdVextracti32x4 : Inst::kIdVextracti128, mem(m.o[0].m, 16), wv[size_t(m.o[1].r)], Imm(m.imm))); break;
+        case WX_INSERT: E(cc.emit(z ? Inst::kIdVinserti32x4 : Inst::kIdVinserti128, wv[size_t(m.o[0].r)], wv[size_t(m.o[1].r)], x[size_t(m.o[2].r)], Imm(m.imm))); break;
+        case WX_PERM2: E(cc.emit(z ? Inst::kIdVshufi32x4 : Inst::kIdVperm2i128, wv[size_t(m.o[0].r)], wv[size_t(m.o[1].r)], wv[size_t(m.o[2].r)], Imm(m.imm))); break;
+        case WX_PERMQ: E(cc.emit(Inst::kIdVpermq, wv[size_t(m.o[0].r)], wv[size_t(m.o[1].r)], Imm(m.imm))); break;
+        case WX_BCAST: E(cc.emit(Inst::kIdVpbroadcastd, wv[size_t(m.o[0].r)], x[size_t(m.o[1].r)])); break;
+        case WX_LOWREAD: E(cc.emit(Inst::kIdVmovdqa, x[size_t(m.o[0].r)], wv[size_t(m.o[1].r)].xmm())); break;
+        default: E(cc.emit(Inst::kIdVpaddd, wv[size_t(m.o[0].r)].xmm(), x[size_t(m.o[1].r)], x[size_t(m.o[2].r)])); break;
+      }
       break;
     }
   }
+}
+
+void X86Emit::emit_indirect(int sel, const Label& table, JumpAnnotation* ann) {
+  using namespace x86;
+  Gp idx = cc.new_gp_ptr("swidx"), tab = cc.new_gp_ptr("swtab"), tgt = cc.new_gp_ptr("swtgt");
+  E(cc.mov(idx.r32(), gv(sel, 32))); E(cc.and_(idx.r32(), 3));
+  E(cc.lea(tab, ptr(table)));
+  if (is64) E(cc.movsxd(tgt, dword_ptr(tab, idx, 2))); else E(cc.mov(tgt, dword_ptr(tab, idx, 2)));
+  E(cc.add(tgt, tab));
+  E(cc.jmp(tgt, ann));
 }
 
 void X86Emit::emit_list(const std::vector<Node>& l) {
@@ -1153,6 +1490,39 @@ void X86Emit::emit_list(const std::vector<Node>& l) {
         tables.push_back(t);
         break;
       }
+      case N_DISPATCH: {
+        size_t nc = size_t(n.n);
+        Table t; t.L = cc.new_label(); std::vector<Label> cl; for (size_t i = 0; i < nc; i++) cl.push_back(cc.new_label());
+        Label LB = cc.new_label(), Lend = cc.new_label();
+        for (int i = 0; i < n.ntab; i++) t.entries.push_back(cl[(size_t(i) + size_t(n.rot)) % nc]);
+        // every indirect jump lists the same labels: through one shared JumpAnnotation object or through its own (other order)
+        JumpAnnotation* shared = nullptr;
+        auto annot = [&](int which) -> JumpAnnotation* {
+          if (n.sameann && shared) return shared;
+          JumpAnnotation* a = cc.new_jump_annotation(); if (!a) { E(Error::kOutOfMemory); return nullptr; }
+          int order[4]; perm_of(n.sameann ? n.perm[0] : n.perm[which], n.n, order);
+          for (size_t i = 0; i < nc; i++) a->add_label(cl[size_t(order[i])]);
+          if (n.sameann) shared = a;
+          return a;
+        };
+        Gp cnt;
+        if (n.redisp) { cnt = cc.new_gp32("dcnt"); E(cc.mov(cnt, n.n2)); }
+        for (const MOp& m : n.ops) emit_mop(m);
+        E(cc.emit(Inst::jcc_from_cond(CondCode(n.cc ^ 1)), LB));
+        emit_list(n.parts[0]);
+        if (JumpAnnotation* a = annot(0)) emit_indirect(n.sel, t.L, a);
+        E(cc.bind(LB));
+        emit_list(n.parts[1]);
+        if (JumpAnnotation* a = annot(1)) emit_indirect(n.sel2, t.L, a);
+        for (size_t i = 0; i < nc; i++) {
+          E(cc.bind(cl[i])); if (n.pad) E(cc.nop()); emit_list(n.parts[2 + i]);
+          if ((n.redisp >> i) & 1) { E(cc.dec(cnt)); E(cc.jz(Lend)); if (JumpAnnotation* a = annot(2)) emit_indirect(n.sel3, t.L, a); }
+          else if (!(n.flag && i + 1 < nc) && i + 1 < nc) E(cc.jmp(Lend));
+        }
+        E(cc.bind(Lend));
+        tables.push_back(t);
+        break;
+      }
       case N_RETIF: {
         Label Lskip = cc.new_label();
         for (const MOp& m : n.ops) emit_mop(m);
@@ -1201,6 +1571,10 @@ void X86Emit::prologue() {
   }
   for (int j = 0; j < P.nv; j++) E(cc.emit(avx ? Inst::kIdVmovdqu : Inst::kIdMovdqu, x[size_t(j)], ptr(buf, OFF_VIN + 16 * j, 16)));
   for (int j = 0; j < P.nk; j++) E(cc.kmovw(k[size_t(j)], ptr(buf, OFF_KIN + 8 * j, 2)));
+  for (int j = 0; j < P.nw; j++) {
+    wv.push_back(P.wbits == 512 ? cc.new_zmm("z%d", j) : cc.new_ymm("y%d", j));
+    E(cc.emit(P.wbits == 512 ? Inst::kIdVmovdqu32 : Inst::kIdVmovdqu, wv.back(), ptr(buf, OFF_WIN + 64 * j, uint32_t(P.wbits / 8))));
+  }
   for (int i = 0; i < pressure; i++) { pd.push_back(is64 ? cc.new_gp64("p%d", i) : cc.new_gp32("p%d", i)); E(cc.mov(pd.back(), ptr(buf, OFF_PIN + 8 * i, is64 ? 8 : 4))); }
   int npv = P.nv ? std::min(pressure / 4, 40) : 0;
   for (int j = 0; j < npv; j++) { pv.push_back(cc.new_xmm("pv%d", j)); E(cc.emit(avx ? Inst::kIdVmovdqu : Inst::kIdMovdqu, pv.back(), ptr(buf, OFF_VIN + 16 * (j % 48), 16))); }
@@ -1231,6 +1605,7 @@ void X86Emit::epilogue() {
   }
   for (int j = 0; j < P.nv; j++) if (P.folded(j)) E(cc.emit(avx ? Inst::kIdVmovdqu : Inst::kIdMovdqu, ptr(buf, OFF_VOUT + 16 * j, 16), x[size_t(j)]));
   for (int j = 0; j < P.nk; j++) if (P.folded(j)) E(cc.kmovw(ptr(buf, OFF_KOUT + 8 * j, 2), k[size_t(j)]));
+  for (int j = 0; j < P.nw; j++) if (P.folded(j)) E(cc.emit(P.wbits == 512 ? Inst::kIdVmovdqu32 : Inst::kIdVmovdqu, ptr(buf, OFF_WOUT + 64 * j, uint32_t(P.wbits / 8)), wv[size_t(j)]));
   E(cc.ret(acc));
   E(cc.end_func());
   for (Table& t : tables) {
@@ -1409,6 +1784,8 @@ void make_input(const Prog& P, int t, Input& in) {
     if (j < P.nargs && P.gty[size_t(j)] == 32) v = (v & 0xffffffffull) | (mix64(s + uint64_t(j)) << 32);   // upper half of a 32-bit argument is garbage
     in.args[j] = v;
   }
+  // (appended after everything else so that the older regions keep the values they always had)
+  for (int off = OFF_WIN; off < OFF_WOUT; off += 8) { uint64_t v = word(); memcpy(b + off, &v, 8); }
 }
 
 struct RunResult { int sig = 0; uint64_t ret = 0; bool callee_saved_ok = true; bool rsp_ok = true; uint64_t fault_rip = 0, fault_addr = 0; };
@@ -1452,7 +1829,8 @@ struct A64Emit {
   a64::Gp tmp(int w) { return w == 64 ? cc.new_gp64("t") : cc.new_gp32("t"); }
   a64::Gp ptr_at(int off) { a64::Gp p = cc.new_gp64("p"); E(cc.mov(p, uint64_t(off))); E(cc.add(p, buf, p)); return p; }
   int opw(const MOp& m) const { int w = m.w < 32 ? 32 : m.w; for (const Opnd& o : m.o) if (o.t == T_REG && P.gty[size_t(o.r)] == 32) w = 32; return w; }
-  a64::Vec vx(const Opnd& o) { return x[size_t(o.t == T_VEC ? o.r : 0) % x.size()]; }
+  a64::Vec vx(const Opnd& o) { return x[size_t(o.t == T_VEC ? o.r : o.t == T_WID ? P.nv + o.r : 0) % x.size()]; }   // wide values: extra q vectors after the xmm ones
+  void emit_indirect(int sel, const Label& table, JumpAnnotation* ann);
   a64::Mem addr(const MemRef& m, int wbytes) {
     if (m.space == MS_BUF && m.idx >= 0) { a64::Gp p = ptr_at(OFF_SCR + (m.off & ~7)); return a64::ptr(p, g[size_t(m.idx)].x(), a64::lsl(uint32_t(wbytes == 8 ? 3 : wbytes == 4 ? 2 : wbytes == 2 ? 1 : 0))); }
     int al = wbytes >= 8 ? 8 : wbytes;
@@ -1616,21 +1994,62 @@ void A64Emit::emit_mop(const MOp& m) {
     case M_CALL: {
       const char* sig = kCallees[m.sub];
       FuncSignature fs(CallConvId::kCDecl);
-      fs.set_ret(sig[0] == 'x' ? TypeId::kInt32x4 : TypeId::kUInt64);
-      for (int i = 0; sig[1 + i]; i++) fs.add_arg(sig[1 + i] == 'x' ? TypeId::kInt32x4 : sig[1 + i] == 'q' ? TypeId::kUInt64 : TypeId::kUInt32);
+      fs.set_ret(sig[0] == 'x' || sig[0] == 'y' ? TypeId::kInt32x4 : TypeId::kUInt64);
+      for (int i = 0; sig[1 + i]; i++) fs.add_arg(sig[1 + i] == 'x' || sig[1 + i] == 'y' ? TypeId::kInt32x4 : sig[1 + i] == 'q' ? TypeId::kUInt64 : TypeId::kUInt32);
       Gp fn = cc.new_gp64("fn"); E(cc.mov(fn, uint64_t(0x12345678)));
       InvokeNode* inv = nullptr; E(cc.invoke(Out(inv), fn, fs));
       if (!inv) break;
       for (int i = 0; i < m.nargs; i++) {
         const Opnd& a = m.args[i];
-        if (a.t == T_VEC) inv->set_arg(size_t(i), x[size_t(a.r)]);
+        if (a.t == T_VEC || a.t == T_WID) inv->set_arg(size_t(i), vx(a));
         else if (a.t == T_IMM && !(no_imm_stack_arg && i >= 8 && ++n_excluded)) inv->set_arg(size_t(i), Imm(a.imm));
         else inv->set_arg(size_t(i), g[size_t(a.t == T_REG ? a.r : 0)]);
       }
-      if (m.o[0].t == T_VEC) inv->set_ret(0, x[size_t(m.o[0].r)]); else inv->set_ret(0, g[size_t(m.o[0].r)]);
+      if (m.o[0].t == T_VEC || m.o[0].t == T_WID) inv->set_ret(0, vx(m.o[0])); else inv->set_ret(0, g[size_t(m.o[0].r)]);
+      break;
+    }
+    case M_WMOV: {
+      if (x.empty()) break;
+      if (m.sub == 0) { E(cc.mov(vx(m.o[0]).b16(), vx(m.o[1]).b16())); break; }
+      int off = OFF_SCR + (m.o[1].m.off & ~15);
+      if (m.sub == 1) E(cc.ldr(vx(m.o[0]).q(), a64::ptr(buf, off))); else E(cc.str(vx(m.o[0]).q(), a64::ptr(buf, off)));
+      break;
+    }
+    case M_WALU: case M_WTERN: {
+      if (x.empty()) break;
+      Vec d = vx(m.o[0]), a = vx(m.o[1]), b = m.o[2].t == T_WID ? vx(m.o[2]) : d;
+      switch (m.k == M_WTERN ? int(V_PXOR) : m.sub) {
+        case V_PADDD: E(cc.add(d.s4(), a.s4(), b.s4())); break; case V_PSUBD: E(cc.sub(d.s4(), a.s4(), b.s4())); break;
+        case V_PAND: E(cc.and_(d.b16(), a.b16(), b.b16())); break; case V_POR: E(cc.orr(d.b16(), a.b16(), b.b16())); break;
+        case V_PANDN: E(cc.bic(d.b16(), a.b16(), b.b16())); break; case V_PCMPEQD: E(cc.cmeq(d.s4(), a.s4(), b.s4())); break;
+        case V_PCMPGTD: E(cc.cmgt(d.s4(), a.s4(), b.s4())); break; default: E(cc.eor(d.b16(), a.b16(), b.b16())); break;
+      }
+      break;
+    }
+    case M_WX: {
+      if (x.empty()) break;
+      switch (m.sub) {
+        case WX_EXTRACT: case WX_LOWREAD: E(cc.mov(vx(m.o[0]).b16(), vx(m.o[1]).b16())); break;
+        case WX_EXTRACT_MEM: E(cc.str(vx(m.o[1]).q(), a64::ptr(buf, OFF_SCR + (m.o[0].m.off & ~15)))); break;
+        case WX_INSERT: E(cc.eor(vx(m.o[0]).b16(), vx(m.o[1]).b16(), vx(m.o[2]).b16())); break;
+        case WX_PERM2: E(cc.ext(vx(m.o[0]).b16(), vx(m.o[1]).b16(), vx(m.o[2]).b16(), uint32_t(m.imm & 15))); break;
+        case WX_PERMQ: E(cc.ext(vx(m.o[0]).b16(), vx(m.o[1]).b16(), vx(m.o[1]).b16(), 8)); break;
+        case WX_BCAST: E(cc.dup(vx(m.o[0]).s4(), vx(m.o[1]).s(uint32_t(m.imm & 3)))); break;
+        default: E(cc.add(vx(m.o[0]).s4(), vx(m.o[1]).s4(), vx(m.o[2]).s4())); break;
+      }
       break;
     }
   }
+}
+
+void A64Emit::emit_indirect(int sel, const Label& table, JumpAnnotation* ann) {
+  using namespace a64;
+  Gp idx = cc.new_gp64("swidx"), tab = cc.new_gp64("swtab"), off = cc.new_gp64("swoff");
+  E(cc.and_(idx.w(), gv(sel, 32), 3));
+  E(cc.adr(tab, table));
+  E(cc.ldrsw(off, a64::ptr(tab, idx, lsl(2))));
+  E(cc.add(tab, tab, off));
+  E(cc.br(tab, ann));
 }
 
 void A64Emit::emit_list(const std::vector<Node>& l) {
@@ -1678,6 +2097,38 @@ void A64Emit::emit_list(const std::vector<Node>& l) {
         tables.push_back(t);
         break;
       }
+      case N_DISPATCH: {
+        size_t nc = size_t(n.n);
+        Table t; t.L = cc.new_label(); std::vector<Label> cl; for (size_t i = 0; i < nc; i++) cl.push_back(cc.new_label());
+        Label LB = cc.new_label(), Lend = cc.new_label();
+        for (int i = 0; i < n.ntab; i++) t.entries.push_back(cl[(size_t(i) + size_t(n.rot)) % nc]);
+        JumpAnnotation* shared = nullptr;
+        auto annot = [&](int which) -> JumpAnnotation* {
+          if (n.sameann && shared) return shared;
+          JumpAnnotation* a = cc.new_jump_annotation(); if (!a) { E(Error::kOutOfMemory); return nullptr; }
+          int order[4]; perm_of(n.sameann ? n.perm[0] : n.perm[which], n.n, order);
+          for (size_t i = 0; i < nc; i++) a->add_label(cl[size_t(order[i])]);
+          if (n.sameann) shared = a;
+          return a;
+        };
+        Gp cnt;
+        if (n.redisp) { cnt = cc.new_gp32("dcnt"); E(cc.mov(cnt, n.n2)); }
+        for (const MOp& m : n.ops) emit_mop(m);
+        E(cc.b(arm::CondCode(2 + (n.cc ^ 1) % 14), LB));
+        emit_list(n.parts[0]);
+        if (JumpAnnotation* a = annot(0)) emit_indirect(n.sel, t.L, a);
+        E(cc.bind(LB));
+        emit_list(n.parts[1]);
+        if (JumpAnnotation* a = annot(1)) emit_indirect(n.sel2, t.L, a);
+        for (size_t i = 0; i < nc; i++) {
+          E(cc.bind(cl[i])); if (n.pad) E(cc.nop()); emit_list(n.parts[2 + i]);
+          if ((n.redisp >> i) & 1) { E(cc.subs(cnt, cnt, 1)); E(cc.b_eq(Lend)); if (JumpAnnotation* a = annot(2)) emit_indirect(n.sel3, t.L, a); }
+          else if (!n.flag && i + 1 < nc) E(cc.b(Lend));
+        }
+        E(cc.bind(Lend));
+        tables.push_back(t);
+        break;
+      }
       case N_RETIF: {
         Label Lskip = cc.new_label();
         for (const MOp& m : n.ops) emit_mop(m);
@@ -1701,12 +2152,14 @@ void A64Emit::build() {
   buf = cc.new_gp64("buf"); func->set_arg(0, buf);
   for (size_t i = 0; i < P.gty.size(); i++) g.push_back(P.gty[i] == 64 ? cc.new_gp64("v%u", unsigned(i)) : cc.new_gp32("v%u", unsigned(i)));
   for (int j = 0; j < P.nv; j++) x.push_back(cc.new_vec_q("x%d", j));
+  for (int j = 0; j < P.nw; j++) x.push_back(cc.new_vec_q("w%d", j));
   for (int j = 0; j < P.nargs; j++) func->set_arg(size_t(1 + j), g[size_t(j)]);
   for (int i = P.nargs; i < P.ng; i++) {
     if (i + 1 < P.ng && (i & 3) == 0 && P.gty[size_t(i)] == P.gty[size_t(i + 1)]) { Gp pp = ptr_at(OFF_GIN + 8 * i); E(cc.ldp(g[size_t(i)], g[size_t(i + 1)], a64::ptr(pp))); i++; }
     else E(cc.ldr(g[size_t(i)], a64::ptr(buf, OFF_GIN + 8 * i)));
   }
   for (int j = 0; j < P.nv; j++) E(cc.ldr(x[size_t(j)].q(), a64::ptr(buf, OFF_VIN + 16 * j)));
+  for (int j = 0; j < P.nw; j++) E(cc.ldr(x[size_t(P.nv + j)].q(), a64::ptr(buf, OFF_WIN + 64 * j)));
   for (int i = 0; i < P.pressure; i++) { pd.push_back(cc.new_gp64("p%d", i)); E(cc.ldr(pd.back(), a64::ptr(buf, OFF_PIN + 8 * i))); }
   emit_list(P.body);
   Gp acc = cc.new_gp64("acc"); E(cc.mov(acc, 0));
@@ -1717,6 +2170,7 @@ void A64Emit::build() {
     if (P.gty[size_t(i)] == 64) E(cc.eor(acc, acc, g[size_t(i)].x(), ror(5))); else E(cc.eor(acc.w(), acc.w(), g[size_t(i)].w(), ror(5)));
   }
   for (int j = 0; j < P.nv; j++) if (P.folded(j)) E(cc.str(x[size_t(j)].q(), a64::ptr(buf, OFF_VOUT + 16 * j)));
+  for (int j = 0; j < P.nw; j++) if (P.folded(j)) E(cc.str(x[size_t(P.nv + j)].q(), a64::ptr(buf, OFF_WOUT + 64 * j)));
   E(cc.ret(acc));
   E(cc.end_func());
   for (Table& t : tables) { E(cc.bind(t.L)); for (Label& e : t.entries) E(cc.embed_label_delta(e, t.L, 4)); }
@@ -1792,6 +2246,8 @@ std::string region_of(int off) {
   else if (off < OFF_VOUT) snprintf(b, sizeof b, "final value of v%d (byte %d)", (off - OFF_GOUT) / 8, (off - OFF_GOUT) % 8);
   else if (off < OFF_KOUT) snprintf(b, sizeof b, "final value of x%d (byte %d)", (off - OFF_VOUT) / 16, (off - OFF_VOUT) % 16);
   else if (off < OFF_RES2) snprintf(b, sizeof b, "final value of k%d", (off - OFF_KOUT) / 8);
+  else if (off >= OFF_WOUT) snprintf(b, sizeof b, "final value of wide value %d (byte %d)", (off - OFF_WOUT) / 64, (off - OFF_WOUT) % 64);
+  else if (off >= OFF_WIN) snprintf(b, sizeof b, "wide input %d", (off - OFF_WIN) / 64);
   else snprintf(b, sizeof b, "pressure accumulator");
   return b;
 }
@@ -1817,6 +2273,9 @@ struct Globals { bool dump = false; int inputs = 32; bool no32 = false, noa64 = 
 void vh_init(const vh::Opts& o, vh::Ctx&) {
   G.dump = o.geti("dump", 0) != 0; g_keyop = o.geti("keyop", 0) != 0; G.inputs = int(o.geti("inputs", 32));
   G.no32 = o.geti("no32", 0) != 0; G.noa64 = o.geti("noa64", 0) != 0; G.nometa = o.geti("nometa", 0) != 0;
+  const CpuFeatures::X86& hf = CpuInfo::host().features().x86();
+  g_host_avx512 = (hf.has_avx512_f() && hf.has_avx512_vl() && hf.has_avx512_bw() && hf.has_avx512_dq()) ? 1 : 0;
+  if (o.geti("no512", 0)) g_host_avx512 = 0;
 }
 
 struct Outcome {
@@ -1884,7 +2343,7 @@ static void check_all_x64(const Prog& P, JitRuntime& rt, const CpuFeatures& feat
 
 void vh_run(const vh::Case& c, vh::Ctx& ctx) {
   Excl ex;
-  for (int i = 0; i < EX_COUNT_; i++) ex.on[i] = ctx.is_known(std::string("miscompiled:") + kExName[i]);
+  for (int i = 0; i < EX_COUNT_; i++) ex.on[i] = ctx.is_known(ex_key(i));
   std::unique_ptr<Prog> Pp(new Prog());
   Prog& P = *Pp;
   decode_case(c, ex, P);
@@ -1901,11 +2360,39 @@ void vh_run(const vh::Case& c, vh::Ctx& ctx) {
     if (P.nv) ctx.cls(std::string("vec_") + pressure_bucket(P.nv + (P.pressure / 4)));
     ctx.cls(P.vmode == 0 ? "vmode_sse" : P.vmode == 1 ? "vmode_avx" : "vmode_avx512");
     ctx.cls(P.body.empty() ? "shape_empty" : P.max_depth == 0 ? "shape_straight_line" : P.max_depth == 1 ? "shape_depth1" : "shape_nested");
-    if (P.n_calls) ctx.cls("has_call"); if (P.n_switch) ctx.cls("has_jump_table"); if (P.n_loops) ctx.cls("has_loop"); if (P.n_irr) ctx.cls("has_irreducible");
+    if (P.n_calls) ctx.cls("has_call"); if (P.n_switch || P.n_dispatch) ctx.cls("has_jump_table"); if (P.n_loops) ctx.cls("has_loop"); if (P.n_irr) ctx.cls("has_irreducible");
     if (P.n_if) ctx.cls("has_diamond"); if (P.n_retif) ctx.cls("has_early_return"); if (P.n_fixed) ctx.cls("has_fixed_reg_inst");
     if (P.n_partial) ctx.cls("has_partial_write"); if (P.n_idiom) ctx.cls("has_same_reg_idiom"); if (P.n_vec) ctx.cls("has_vector_op"); if (P.n_mask) ctx.cls("has_mask_op");
     if (P.n_mem) ctx.cls("has_mem_operand"); if (P.nargs > 5) ctx.cls("has_stack_args"); if (P.nslots) ctx.cls("has_stack_slots"); if (P.ntemps) ctx.cls("has_temps");
     if (P.tysel >= 2) ctx.cls("mixed_widths");
+    // several annotated indirect jumps over one target set
+    if (P.n_dispatch) {
+      ctx.cls("jump_tables_shared_annotation", uint64_t(P.n_dispatch)); ctx.cls("has_dispatch");
+      ctx.cls("dispatch_indirect_jumps", uint64_t(P.n_disp_jumps));
+      if (P.n_disp_sameann) ctx.cls("dispatch_one_annotation_object", uint64_t(P.n_disp_sameann));
+      if (P.n_dispatch > P.n_disp_sameann) ctx.cls("dispatch_annotation_per_jump_permuted", uint64_t(P.n_dispatch - P.n_disp_sameann));
+      ctx.cls("second_jump_unallocated_target_first", uint64_t(P.n_disp_unalloc_first));
+      if (P.n_disp_redisp) ctx.cls("dispatch_redispatch_from_case", uint64_t(P.n_disp_redisp));
+      if (P.n_disp_after_call) ctx.cls("dispatch_after_call", uint64_t(P.n_disp_after_call));
+      if (P.n_disp_call_inside) ctx.cls("dispatch_call_in_case", uint64_t(P.n_disp_call_inside));
+      if (P.n_disp_write_in_arm) ctx.cls("dispatch_gp_write_before_later_jump", uint64_t(P.n_disp_write_in_arm));
+      if (P.n_disp_after_call && P.n_disp_write_in_arm && P.n_calls >= 2) ctx.cls("dispatch_clean_then_dirty_candidate");
+    }
+    // wide vectors and callees of other conventions
+    if (P.nw) {
+      ctx.cls(P.wbits == 512 ? "wide_zmm" : "wide_ymm");
+      ctx.cls(std::string("wide_") + pressure_bucket(P.nw));
+      if (P.n_wide) ctx.cls("has_wide_op"); if (P.n_wide_xlane) ctx.cls("has_wide_cross_lane_op"); if (P.n_wide_lowview) ctx.cls("has_wide_xmm_view_op"); if (P.n_wide_mem) ctx.cls("has_wide_mem_operand");
+      int live_w = 0; for (int j = 0; j < P.nw; j++) if (P.folded(j)) live_w++;
+      if (live_w) {
+        int ms = P.n_calls_win + P.n_calls_vcall;
+        if (ms) ctx.cls(P.wbits == 512 ? "zmm_live_across_ms_abi_call" : "ymm_live_across_ms_abi_call", uint64_t(ms));
+        if (ms >= 2 || (ms && P.n_loops + P.n_irr + P.n_disp_redisp > 0)) ctx.cls("wide_live_across_repeated_ms_abi_calls");
+        if (P.n_calls - ms > 0) ctx.cls("wide_live_across_sysv_call", uint64_t(P.n_calls - ms));
+        if (ms && live_w + P.nv >= 7) ctx.cls("wide_ms_abi_call_with_7plus_live_vectors");
+      }
+    }
+    if (P.n_calls_win) ctx.cls("call_win64", uint64_t(P.n_calls_win)); if (P.n_calls_vcall) ctx.cls("call_vectorcall", uint64_t(P.n_calls_vcall)); if (P.n_calls_widearg) ctx.cls("call_sysv_ymm_args", uint64_t(P.n_calls_widearg));
   }
 
   JitRuntime rt;
@@ -1918,13 +2405,13 @@ void vh_run(const vh::Case& c, vh::Ctx& ctx) {
     std::string key = out.key;
     if (key != "compile-error-on-valid-program:x64" || true) {
       for (int i = 0; i < EX_COUNT_; i++) {
-        if (ex.on[i]) continue;
+        if (ex.on[i] || !ex_applies(i, out.key)) continue;
         Excl ex2 = ex; ex2.on[i] = true;
         std::unique_ptr<Prog> P2(new Prog()); decode_case(c, ex2, *P2);
         if (P2->n_excl[i] == 0) continue;
         Outcome o2; check_all_x64(*P2, rt, feat, ninputs, o2);
         if (G.dump) printf("attribution: class %s -> %s %s\n", kExName[i], o2.fail ? o2.key.c_str() : "passes", o2.head.c_str());
-        if (!o2.fail) { key = std::string("miscompiled:") + kExName[i]; out.head = "[" + out.key + "; disappears when the shape '" + kExName[i] + "' is excluded] " + out.head; break; }
+        if (!o2.fail) { key = ex_key(i); out.head = "[" + out.key + "; disappears when the shape '" + kExName[i] + "' is excluded] " + out.head; break; }
       }
     }
     std::string msg = out.head;
@@ -1941,11 +2428,27 @@ void vh_run(const vh::Case& c, vh::Ctx& ctx) {
 
   // ---- x86-32 and AArch64: not executed here. The analogous program must compile when the x86-64 build did, and the
   //      post-RA node list must be structurally valid (no virtual register left, register lists consecutive). ----
+  // attribution for the compile-only targets: does the failure disappear when one trigger shape is excluded?
+  auto attribute = [&](const std::string& key0, const std::function<bool(const Prog&)>& fails) -> std::string {
+    for (int i = 0; i < EX_COUNT_; i++) {
+      if (ex.on[i] || !ex_applies(i, key0)) continue;
+      Excl ex2 = ex; ex2.on[i] = true;
+      std::unique_ptr<Prog> P2(new Prog()); decode_case(c, ex2, *P2);
+      if (P2->n_excl[i] == 0) continue;
+      if (!fails(*P2)) return ex_key(i);
+    }
+    return key0;
+  };
   if (!G.no32) {
     std::unique_ptr<BuiltX86> B32(new BuiltX86());
     build_x86(*B32, P, Arch::kX86, feat, P.pressure, nullptr);
     ctx.cls("x86_32_builds");
-    if (B32->err != Error::kOk) { if (!report(ctx, B32->abort_sig ? abort_key("x86", B32->abort_sig, B32->abort_text) : std::string("compile-error-on-valid-program:x86:") + DebugUtils::error_as_string(B32->err), B32->describe(), P, (B32->stage == "emit" || B32->abort_sig) ? nullptr : &B32->cc)) return; }
+    if (B32->err != Error::kOk && B32->abort_sig) {
+      std::string k0 = abort_key("x86", B32->abort_sig, B32->abort_text);
+      std::string k = attribute(k0, [&](const Prog& Q) { std::unique_ptr<BuiltX86> b(new BuiltX86()); build_x86(*b, Q, Arch::kX86, feat, Q.pressure, nullptr); return b->err != Error::kOk; });
+      if (!report(ctx, k, (k != k0 ? "[" + k0 + "; disappears when the shape is excluded] " : std::string()) + B32->describe(), P, nullptr)) return;
+    }
+    else if (B32->err != Error::kOk) { if (!report(ctx, B32->abort_sig ? abort_key("x86", B32->abort_sig, B32->abort_text) : std::string("compile-error-on-valid-program:x86:") + DebugUtils::error_as_string(B32->err), B32->describe(), P, (B32->stage == "emit" || B32->abort_sig) ? nullptr : &B32->cc)) return; }
     else if (!B32->post.virt_left.empty()) { if (!report(ctx, "virtual-reg-left:x86", "after RA: " + B32->post.virt_left, P, &B32->cc)) return; }
     else if (B32->post.inserted()) ctx.cls("x86_32_ra_inserted");
   }
@@ -1956,7 +2459,13 @@ void vh_run(const vh::Case& c, vh::Ctx& ctx) {
     if (BA->em && BA->em->n_excluded) ctx.known_excluded("excluded-a64-immediate-stack-argument");
     ctx.cls("a64_builds"); if (BA->em && BA->em->n_lists) ctx.cls("a64_has_register_list", uint64_t(BA->em->n_lists));
     if (G.dump) printf("--- a64 ---\n%s\n", format_all(&BA->cc).c_str());
-    if (BA->err != Error::kOk) { if (!report(ctx, BA->abort_sig ? abort_key("a64", BA->abort_sig, BA->abort_text) : std::string("compile-error-on-valid-program:a64:") + DebugUtils::error_as_string(BA->err), BA->describe(), P, (BA->stage == "emit" || BA->abort_sig) ? nullptr : &BA->cc)) return; }
+    if (BA->err != Error::kOk && BA->abort_sig) {
+      std::string k0 = abort_key("a64", BA->abort_sig, BA->abort_text);
+      bool k1 = ctx.is_known("asmjit-assert:a64:a64rapass.cpp:528"), k2 = ctx.is_known("asmjit-assert:a64:ralocal.cpp:1038");
+      std::string k = ctx.is_known(k0) ? k0 : attribute(k0, [&](const Prog& Q) { std::unique_ptr<BuiltA64> b(new BuiltA64()); build_a64(*b, Q, k1, k2); return b->err != Error::kOk; });
+      if (!report(ctx, k, (k != k0 ? "[" + k0 + "; disappears when the shape is excluded] " : std::string()) + BA->describe(), P, nullptr)) return;
+    }
+    else if (BA->err != Error::kOk) { if (!report(ctx, BA->abort_sig ? abort_key("a64", BA->abort_sig, BA->abort_text) : std::string("compile-error-on-valid-program:a64:") + DebugUtils::error_as_string(BA->err), BA->describe(), P, (BA->stage == "emit" || BA->abort_sig) ? nullptr : &BA->cc)) return; }
     else {
       if (!BA->post.virt_left.empty()) { if (!report(ctx, "virtual-reg-left:a64", "after RA: " + BA->post.virt_left, P, &BA->cc)) return; }
       if (!BA->post.bad_list_inst.empty()) { if (!report(ctx, "list-not-consecutive:a64:" + BA->post.bad_list_inst, "after RA: " + BA->post.bad_list_text, P, &BA->cc)) return; }
@@ -1965,7 +2474,7 @@ void vh_run(const vh::Case& c, vh::Ctx& ctx) {
   }
 
 
-  bool nontrivial = post.inserted() > 0 || P.n_calls || P.n_switch || P.n_fixed;
+  bool nontrivial = post.inserted() > 0 || P.n_calls || P.n_switch || P.n_dispatch || P.n_fixed;
   if (nontrivial) {
     ctx.nontrivial();
     if (ctx.want_sample()) {
@@ -1982,23 +2491,57 @@ void vh_run(const vh::Case& c, vh::Ctx& ctx) {
 static int pick_kind(int sel) {
   static const int w[H_COUNT_] = { /*alu*/ 150, /*unary*/ 35, /*imul*/ 35, /*lea*/ 35, /*movx*/ 40, /*shift_i*/ 40, /*shift_cl*/ 45, /*muldiv*/ 45, /*cmpxchg*/ 25, /*xchg*/ 30,
                                    /*setcc*/ 40, /*cmov*/ 35, /*bt*/ 20, /*cnt*/ 20, /*idiom*/ 90, /*temp*/ 40, /*vgx*/ 30, /*vldst*/ 30, /*valu*/ 50, /*kop*/ 25, /*call*/ 35,
-                                   /*if*/ 30, /*loop*/ 22, /*irr*/ 14, /*switch*/ 16, /*next*/ 30, /*end*/ 45, /*retif*/ 8 };
+                                   /*if*/ 30, /*loop*/ 22, /*irr*/ 14, /*switch*/ 16, /*next*/ 30, /*end*/ 45, /*retif*/ 8,
+                                   /*dispatch*/ 10, /*wldst*/ 25, /*walu*/ 40, /*wx*/ 30, /*call2*/ 28 };
   int tot = 0; for (int x : w) tot += x;
   sel %= tot;
   for (int i = 0; i < H_COUNT_; i++) { if (sel < w[i]) return i; sel -= w[i]; }
   return 0;
 }
 
+// Draws the fields of one op (only valid inside a rapidcheck generator).
+static vh::Op draw_op(int kind) {
+  vh::Op op; op.push_back(kind);
+  for (int i = 0; i < 16; i++) {
+    int wide = *vh::irange<int>(0, 9);
+    if (wide == 0) op.push_back(*rc::gen::resize(1000, rc::gen::arbitrary<int64_t>())); else op.push_back(*vh::irange<int64_t>(0, (1 << 20) - 1));
+  }
+  return op;
+}
+static int draw_from(std::initializer_list<int> kinds) { std::vector<int> v(kinds); return v[size_t(*vh::irange<int>(0, int(v.size()) - 1))]; }
+
 rc::Gen<vh::Case> vh_gen(const vh::Opts&) {
   using namespace rc;
-  auto opGen = gen::exec([]() -> vh::Op {
-    vh::Op op; op.push_back(pick_kind(*vh::irange<int>(0, 99999)));
-    int n = 16;
-    for (int i = 0; i < n; i++) {
-      int wide = *vh::irange<int>(0, 9);
-      if (wide == 0) op.push_back(*gen::resize(1000, gen::arbitrary<int64_t>())); else op.push_back(*vh::irange<int64_t>(0, (1 << 20) - 1));
+  // A chunk is one random op or a short scenario (a few ops of chosen kinds with random fields): the scenarios only bias
+  // the mix towards shapes that need several ingredients at once, the fields (registers, forms, immediates) stay random.
+  auto chunkGen = gen::exec([]() -> std::vector<vh::Op> {
+    std::vector<vh::Op> v;
+    int t = *vh::irange<int>(0, 999);
+    if (t < 950) { v.push_back(draw_op(pick_kind(*vh::irange<int>(0, 99999)))); return v; }
+    auto some = [&](int lo, int hi, std::initializer_list<int> kinds) { int n = *vh::irange<int>(lo, hi); for (int i = 0; i < n; i++) v.push_back(draw_op(draw_from(kinds))); };
+    if (t < 975) {
+      // values spilled by a call and read again, then a dispatch: two entry arms (the second one modifies values) and cases with calls
+      if (*vh::irange<int>(0, 3)) v.push_back(draw_op(draw_from({H_CALL, H_CALL, H_CALL2})));
+      some(1, 5, {H_LEA, H_LEA, H_ALU, H_TEMP, H_CMOV, H_SHIFT_CL, H_IMUL});
+      v.push_back(draw_op(H_DISPATCH));
+      some(0, 2, {H_ALU, H_LEA, H_UNARY, H_CALL, H_VALU, H_WALU});
+      v.push_back({H_NEXT});
+      some(1, 4, {H_ALU, H_ALU, H_UNARY, H_LEA, H_IMUL, H_SHIFT_I, H_XCHG, H_WALU});
+      int nc = *vh::irange<int>(1, 4);
+      for (int i = 0; i < nc; i++) { v.push_back({H_NEXT}); some(0, 3, {H_CALL, H_CALL, H_CALL2, H_ALU, H_ALU, H_LEA, H_UNARY, H_MULDIV, H_WALU, H_RETIF}); }
+      v.push_back({H_END});
+      if (*vh::irange<int>(0, 2)) v.push_back(draw_op(draw_from({H_CALL, H_CALL2})));
+      some(0, 2, {H_LEA, H_ALU, H_TEMP});
+    } else {
+      // wide values kept live over repeated calls to callees of several conventions, only read in between
+      some(0, 3, {H_WLDST, H_WALU, H_WX});
+      bool loop = *vh::irange<int>(0, 2) == 0;
+      if (loop) v.push_back(draw_op(H_LOOP));
+      int nc = *vh::irange<int>(1, 3);
+      for (int i = 0; i < nc; i++) { v.push_back(draw_op(draw_from({H_CALL2, H_CALL2, H_CALL2, H_CALL}))); some(0, 3, {H_WALU, H_WALU, H_WX, H_WLDST, H_VALU, H_ALU}); }
+      if (loop) v.push_back({H_END});
     }
-    return op;
+    return v;
   });
   auto cfgGen = gen::exec([]() -> std::vector<int64_t> {
     int b = *vh::irange<int>(0, 99);
@@ -2007,11 +2550,16 @@ rc::Gen<vh::Case> vh_gen(const vh::Opts&) {
     int nv = nvb < 3 ? 0 : nvb < 6 ? *vh::irange<int>(1, 8) : nvb < 8 ? *vh::irange<int>(9, 20) : *vh::irange<int>(21, 40);
     int pb = *vh::irange<int>(0, 9);
     int pressure = pb < 5 ? 0 : pb < 8 ? *vh::irange<int>(1, 24) : *vh::irange<int>(25, 200);
-    return { ng, *vh::irange<int>(0, 3), nv, *vh::irange<int>(0, 10), *vh::irange<int>(0, 2), *vh::irange<int>(0, 11), *vh::irange<int>(0, 8) % 5 == 4 ? *vh::irange<int>(0, 8) : 0,
-             *vh::irange<int>(0, 7), pressure, *vh::irange<int>(0, 4), *vh::irange<int64_t>(0, 1 << 30), *vh::irange<int>(0, 3) };
+    int wb = *vh::irange<int>(0, 9);
+    int nw = wb < 4 ? 0 : wb < 7 ? *vh::irange<int>(1, 6) : wb < 9 ? *vh::irange<int>(7, 16) : *vh::irange<int>(17, kMaxW);
+    int vmode = *vh::irange<int>(0, 2);
+    if (nw && vmode == 0) vmode = *vh::irange<int>(1, 2);
+    return { ng, *vh::irange<int>(0, 3), nv, *vh::irange<int>(0, 10), vmode, *vh::irange<int>(0, 11), *vh::irange<int>(0, 8) % 5 == 4 ? *vh::irange<int>(0, 8) : 0,
+             *vh::irange<int>(0, 7), pressure, *vh::irange<int>(0, 4), *vh::irange<int64_t>(0, 1 << 30), *vh::irange<int>(0, 3), nw, *vh::irange<int>(0, 1) };
   });
-  return gen::apply([](std::vector<int64_t> cfg, std::vector<vh::Op> ops) { vh::Case c; c.cfg = std::move(cfg); c.ops = std::move(ops); return c; },
-                    cfgGen, gen::container<std::vector<vh::Op>>(opGen));
+  return gen::apply([](std::vector<int64_t> cfg, std::vector<std::vector<vh::Op>> chunks) {
+                      vh::Case c; c.cfg = std::move(cfg); for (auto& ch : chunks) for (auto& o : ch) c.ops.push_back(std::move(o)); return c; },
+                    cfgGen, gen::container<std::vector<std::vector<vh::Op>>>(chunkGen));
 }
 
 // Deterministic enumeration run before the generated cases:
@@ -2026,27 +2574,30 @@ bool vh_enum(const vh::Opts& o, uint64_t k, vh::Case& out) {
   long variants = o.geti("enum_variants", o.is_thorough() ? 400 : 60);
   if (variants <= 0) return false;
   uint64_t idx = k * uint64_t(std::max(1, o.workers)) + uint64_t(o.worker);
-  uint64_t nself = uint64_t(H_CALL + 1) * uint64_t(variants);
+  uint64_t nself = uint64_t(kNumLeafKinds) * uint64_t(variants);
   out = vh::Case();
   if (idx < nself) {
-    int kind = int(idx % (H_CALL + 1)); int v = int(idx / (H_CALL + 1));
-    out.cfg = { 3 + v % 4, v % 4, 3, 2, (v / 4) % 3, v % 5, 0, 0, 0, 2, v, (v / 3) % 4 };
+    int kind = kLeafKinds[idx % kNumLeafKinds]; int v = int(idx / kNumLeafKinds);
+    bool wide = kind > H_RETIF;
+    out.cfg = { 3 + v % 4, v % 4, 3, 2, wide ? 1 + (v / 4) % 2 : (v / 4) % 3, v % 5, 0, 0, 0, 2, v, (v / 3) % 4, wide ? 3 : 0, v % 2 };
     out.ops.push_back(enum_op(kind, uint64_t(idx) + 1));
     return true;
   }
   idx -= nself;
-  static const int shapes[] = {H_IF, H_LOOP, H_IRR, H_SWITCH};
+  static const int shapes[] = {H_IF, H_LOOP, H_IRR, H_SWITCH, H_DISPATCH};
   static const int pressures[] = {3, 12, 15, 18, 40};
-  uint64_t nshape = 4 * 5 * 5 * 3 * uint64_t(std::max<long>(1, variants / 20));
+  uint64_t nshape = 5 * 6 * 5 * 3 * uint64_t(std::max<long>(1, variants / 20));
   if (idx >= nshape) return false;
-  int outer = int(idx % 4); idx /= 4; int inner = int(idx % 5); idx /= 5; int pr = int(idx % 5); idx /= 5; int vm = int(idx % 3); idx /= 3;
+  int outer = int(idx % 5); idx /= 5; int inner = int(idx % 6); idx /= 6; int pr = int(idx % 5); idx /= 5; int vm = int(idx % 3); idx /= 3;
   uint64_t v = idx;
-  out.cfg = { pressures[pr], int(v % 4), vm ? 4 : 0, 2, vm, int(v % 8), 0, 0, int((v % 3) * 9), 1, int64_t(v + 7), 1 };
-  auto body = [&](int n, uint64_t s) { for (int i = 0; i < n; i++) { uint64_t h = mix64(s + uint64_t(i)); out.ops.push_back(enum_op(int(h % (H_CALL + 1)), h)); } };
+  out.cfg = { pressures[pr], int(v % 4), vm ? 4 : 0, 2, vm, int(v % 8), 0, 0, int((v % 3) * 9), 1, int64_t(v + 7), 1, vm ? int(v % 3) * 4 : 0, int(v / 3) % 2 };
+  auto body = [&](int n, uint64_t s) { for (int i = 0; i < n; i++) { uint64_t h = mix64(s + uint64_t(i)); out.ops.push_back(enum_op(kLeafKinds[h % kNumLeafKinds], h)); } };
   out.ops.push_back(enum_op(shapes[outer], v * 3 + 1)); body(2, v * 11 + 1);
-  if (inner < 4) { out.ops.push_back(enum_op(shapes[inner], v * 5 + 2)); body(2, v * 13 + 2); out.ops.push_back({H_NEXT}); body(1, v * 17 + 3); out.ops.push_back({H_END}); }
-  if (inner == 4) out.ops.push_back(enum_op(H_RETIF, v * 7 + 3));
-  out.ops.push_back({H_NEXT}); body(2, v * 19 + 4); out.ops.push_back({H_END}); body(1, v * 23 + 5);
+  if (inner < 5) { out.ops.push_back(enum_op(shapes[inner], v * 5 + 2)); body(2, v * 13 + 2); out.ops.push_back({H_NEXT}); body(1, v * 17 + 3); out.ops.push_back({H_END}); }
+  if (inner == 5) out.ops.push_back(enum_op(H_RETIF, v * 7 + 3));
+  out.ops.push_back({H_NEXT}); body(2, v * 19 + 4);
+  if (shapes[outer] == H_DISPATCH) { out.ops.push_back({H_NEXT}); body(2, v * 29 + 6); out.ops.push_back({H_NEXT}); body(1, v * 31 + 7); }
+  out.ops.push_back({H_END}); body(1, v * 23 + 5);
   return true;
 }
 
